@@ -1,14 +1,29 @@
 /-
-C11 — property theorems: the writable set reflects the registered state.
+C11 — property theorems: the writable set and the lookups reflect the registered state.
 
-`WInv` (= Spec `WritableOk` + no duplicates in the writables slices): every vid offered for writes has
-the right number of locations and only writable located replicas.  Proved here for the LAYOUT
-MECHANISM over all event sequences: `ensure_spec` (ensureCorrectWritables recomputes the fact from
-scratch for its vid and leaves every other vid alone) and `writable_inv_events` (any sequence of
-RegisterVolume+Ensure / UnRegisterVolume / EnsureCorrectWritables / SetVolumeCapacityFull events keeps
-the invariant, the DataNode side being fixed between events).  The interleaving with DataNode-side
-changes inside one heartbeat, SetVolumeUnavailable, and `lookup_exact` are covered by the
-correspondence check (model = implementation on every step, judge on every step).
+Part 1 (layout mechanism): `WInv` (= Spec `WritableOk` + no duplicates in the writables slices) is kept
+by every layout call (`ensure_spec`, `writable_inv_events`).
+
+Part 2 (the model's real step function): the invariant `Inv` — `WInv`, plus: the location list of every
+volume id in its own layout is exactly the set of connected servers that have the volume registered, no
+other layout knows the id, location lists have no duplicates — holds after EVERY operation of ANY
+well-formed sequence of the model's top-level operations (`inv_step`, `inv_run`): connects / reconnects,
+max-count changes, full and incremental volume heartbeats, full and incremental EC heartbeats,
+disconnects, the refresh round.  Inside a heartbeat the DataNode side changes first and the layouts are
+brought up to date call by call; `InvP` is the invariant of those intermediate states (with the sets of
+volume ids still pending) and `HbFacts` says that UpdateVolumes / DeltaUpdateVolumes hand the layouts
+exactly the changes they made.  Well-formedness (`OpWf`) = the recorded assumptions of props/C11/prop.json:
+a volume's layout key (collection, replication, ttl, disk type) is a function of its id, ids are in the
+modelled range, one incremental message does not announce and delete the same volume.  Stale, repeated
+and contradicting messages are all covered.
+
+Consequences: `writable_inv_run` (every writable vid has enough copies and only writable located
+replicas), `lookup_exact_run` (Spec `LookupExact`), `lookup_exact_partial` (Topology.Lookup answers with
+exactly the registered connected servers whenever the layout has an entry for the id; otherwise the id is
+registered nowhere as a normal volume and the answer is the EC shard map — the two open EC-lookup
+findings live exactly there), `refresh_removes_full` (the size-limit conjunct holds right after a refresh
+round; between rounds it is false of the code: `full_volume_offered_again`, open finding
+ensureCorrectWritables/full-volume-offered-again).
 -/
 import SwV.Model.C11
 import SwV.Spec.C11
@@ -264,5 +279,1890 @@ theorem full_volume_offered_again :
       [.conn 1 1 1 6 4, .conn 0 1 1 5 0, .inc 1 [⟨4, 0, false, false, k⟩] [], .full 1 [⟨4, 1046, false, false, k⟩],
        .refresh, .inc 0 [⟨4, 0, false, false, k⟩] [], .inc 0 [] [⟨4, 0, false, false, k⟩]]
     (st.wr k = [4]) ∧ (volOf st 1 4).map (·.size) = some 1046 := by decide
+
+
+/-! ## lifting to the model's step function: the DataNode side of a volume heartbeat -/
+
+/-- registered volumes carry the layout key of their volume id and sit on that key's disk type
+    (volume attributes are a function of the volume id) -/
+def RegKey (keyOf : Nat → Key) (c : Core) : Prop :=
+  ∀ s t vid v, c.vols s t vid = some v → t = (keyOf vid).disk ∧ v.id = vid ∧ v.key = keyOf vid ∧ vid < c.nVid + 1
+
+/-- well-formed volume message entry -/
+def VOk (keyOf : Nat → Key) (c : Core) (v : VInfo) : Prop := v.key = keyOf v.id ∧ v.id < c.nVid + 1
+
+theorem volOf_eq {keyOf : Nat → Key} (hk : ∀ vid, (keyOf vid).disk < 2) {c : Core} (h : RegKey keyOf c) (s vid : Nat) :
+    c.volOf s vid = c.vols s (keyOf vid).disk vid := by
+  unfold Core.volOf
+  have hd : (keyOf vid).disk = 0 ∨ (keyOf vid).disk = 1 := by have := hk vid; omega
+  rcases hd with hd | hd
+  · rw [hd]
+    cases h0 : c.vols s 0 vid with
+    | some v => rfl
+    | none =>
+      cases h1 : c.vols s 1 vid with
+      | none => rfl
+      | some v => have := (h s 1 vid v h1).1; omega
+  · rw [hd]
+    cases h0 : c.vols s 0 vid with
+    | some v => have := (h s 0 vid v h0).1; omega
+    | none => rfl
+
+@[simp] theorem upAdj_vols_eq (c : Core) (s t d) : (c.upAdj s t d).vols = c.vols := rfl
+@[simp] theorem upAdj_conn_eq (c : Core) (s t d) : (c.upAdj s t d).conn = c.conn := rfl
+@[simp] theorem upAdj_nVid_eq (c : Core) (s t d) : (c.upAdj s t d).nVid = c.nVid := rfl
+
+theorem addOrUpdate_fields (c : Core) (s : Nat) (v : VInfo) :
+    (c.addOrUpdate s v).1.vols = upd3 c.vols s v.key.disk v.id (some v) ∧
+    (c.addOrUpdate s v).1.conn = c.conn ∧ (c.addOrUpdate s v).1.nVid = c.nVid ∧
+    (c.addOrUpdate s v).2.1 = (c.vols s v.key.disk v.id).isNone ∧
+    (c.addOrUpdate s v).2.2 = (match c.vols s v.key.disk v.id with | some old => old.ro != v.ro | none => false) := by
+  cases h : c.vols s v.key.disk v.id with
+  | none => refine ⟨?_, ?_, ?_, ?_, ?_⟩ <;> simp [Core.addOrUpdate, h]
+  | some old =>
+    by_cases hr : (old.remote != v.remote) = true
+    · refine ⟨?_, ?_, ?_, ?_, ?_⟩ <;> simp [Core.addOrUpdate, h, hr]
+    · refine ⟨?_, ?_, ?_, ?_, ?_⟩ <;> simp [Core.addOrUpdate, h, hr]
+
+theorem regKey_addOrUpdate {keyOf : Nat → Key} {c : Core} (h : RegKey keyOf c) (s : Nat) (v : VInfo) (hv : VOk keyOf c v) :
+    RegKey keyOf (c.addOrUpdate s v).1 := by
+  obtain ⟨f1, _, f3, _, _⟩ := addOrUpdate_fields c s v
+  intro s' t x u hu
+  rw [f1] at hu
+  rw [f3]
+  unfold upd3 at hu
+  split at hu
+  · next e =>
+    obtain ⟨rfl, rfl, rfl⟩ := e
+    cases hu
+    exact ⟨by rw [hv.1], rfl, hv.1, hv.2⟩
+  · exact h s' t x u hu
+
+theorem regKey_delVol {keyOf : Nat → Key} {c : Core} (h : RegKey keyOf c) (s t x : Nat) (r : Bool) :
+    RegKey keyOf (c.delVol s t x r) := by
+  intro s' t' x' u hu
+  have : (c.delVol s t x r).vols = upd3 c.vols s t x none := rfl
+  rw [this] at hu
+  unfold upd3 at hu
+  split at hu
+  · cases hu
+  · exact h s' t' x' u hu
+
+/-! ### UpdateVolumes, second loop -/
+
+theorem addAll_facts (s : Nat) (vs : List VInfo) (c : Core) :
+    ((c.addAll s vs).1.conn = c.conn ∧ (c.addAll s vs).1.nVid = c.nVid) ∧
+    (∀ s' t x, (s' ≠ s ∨ ∀ v ∈ vs, ¬ (v.key.disk = t ∧ v.id = x)) → (c.addAll s vs).1.vols s' t x = c.vols s' t x) ∧
+    (∀ t x, (c.vols s t x).isSome = true → ((c.addAll s vs).1.vols s t x).isSome = true) ∧
+    (∀ t x, c.vols s t x = none → ((c.addAll s vs).1.vols s t x).isSome = true →
+        ∃ v ∈ (c.addAll s vs).2.1, v.id = x ∧ v.key.disk = t) ∧
+    (∀ t x v v', c.vols s t x = some v → (c.addAll s vs).1.vols s t x = some v' → v.ro ≠ v'.ro →
+        ∃ u ∈ (c.addAll s vs).2.2, u.id = x ∧ u.key.disk = t) ∧
+    (∀ v ∈ (c.addAll s vs).2.1, v ∈ vs ∧ ((c.addAll s vs).1.vols s v.key.disk v.id).isSome = true) ∧
+    (∀ v ∈ (c.addAll s vs).2.2, v ∈ vs) := by
+  induction vs generalizing c with
+  | nil =>
+    refine ⟨⟨rfl, rfl⟩, fun _ _ _ _ => rfl, fun _ _ h => h, ?_, ?_, ?_, ?_⟩
+    · intro t x h1 h2; simp [Core.addAll, h1] at h2
+    · intro t x v v' h1 h2 h3; simp only [Core.addAll] at h2; rw [h1] at h2; cases h2; exact absurd rfl h3
+    · intro v hv; simp [Core.addAll] at hv
+    · intro v hv; simp [Core.addAll] at hv
+  | cons a vs ih =>
+    obtain ⟨f1, f2, f3, f4, f5⟩ := addOrUpdate_fields c s a
+    obtain ⟨⟨i1, i1'⟩, i2, i3, i4, i5, i6, i7⟩ := ih (c.addOrUpdate s a).1
+    simp only [Core.addAll]
+    refine ⟨⟨i1.trans f2, i1'.trans f3⟩, ?_, ?_, ?_, ?_, ?_, ?_⟩
+    · intro s' t x h
+      rw [i2 s' t x (by
+        rcases h with h | h
+        · exact Or.inl h
+        · exact Or.inr (fun v hv => h v (by simp [hv]))), f1]
+      unfold upd3
+      rcases h with h | h
+      · simp [h]
+      · have := h a (by simp)
+        have : ¬ (s' = s ∧ t = a.key.disk ∧ x = a.id) := fun ⟨_, b, c⟩ => this ⟨b.symm, c.symm⟩
+        simp [this]
+    · intro t x h
+      apply i3
+      rw [f1]; unfold upd3; split
+      · rfl
+      · exact h
+    · intro t x h1 h2
+      by_cases e : t = a.key.disk ∧ x = a.id
+      · obtain ⟨rfl, rfl⟩ := e
+        rw [h1] at f4
+        refine ⟨a, ?_, rfl, rfl⟩
+        rw [f4]; simp
+      · have hc1 : (c.addOrUpdate s a).1.vols s t x = none := by
+          rw [f1]; simp only [upd3]
+          rw [if_neg (fun hh => e hh.2)]; exact h1
+        obtain ⟨v, hv, hh⟩ := i4 t x hc1 h2
+        refine ⟨v, ?_, hh⟩
+        split
+        · exact List.mem_cons_of_mem _ hv
+        · exact hv
+    · intro t x v v' h1 h2 h3
+      have sub : ∀ u, u ∈ (Core.addAll (c.addOrUpdate s a).1 s vs).2.2 →
+          u ∈ (if (c.addOrUpdate s a).2.2 = true then a :: (Core.addAll (c.addOrUpdate s a).1 s vs).2.2 else (Core.addAll (c.addOrUpdate s a).1 s vs).2.2) := by
+        intro u hu; split
+        · exact List.mem_cons_of_mem _ hu
+        · exact hu
+      by_cases e : t = a.key.disk ∧ x = a.id
+      · obtain ⟨rfl, rfl⟩ := e
+        have hc1 : (c.addOrUpdate s a).1.vols s a.key.disk a.id = some a := by
+          rw [f1]; simp [upd3]
+        by_cases hro : v.ro = a.ro
+        · obtain ⟨u, hu, hh⟩ := i5 _ _ a v' hc1 h2 (by rw [← hro]; exact h3)
+          exact ⟨u, sub u hu, hh⟩
+        · refine ⟨a, ?_, rfl, rfl⟩
+          rw [h1] at f5
+          have : (c.addOrUpdate s a).2.2 = true := by rw [f5]; simpa using hro
+          rw [this]; simp
+      · have hc1 : (c.addOrUpdate s a).1.vols s t x = some v := by
+          rw [f1]; simp only [upd3]
+          rw [if_neg (fun hh => e hh.2)]; exact h1
+        obtain ⟨u, hu, hh⟩ := i5 t x v v' hc1 h2 h3
+        exact ⟨u, sub u hu, hh⟩
+    · intro v hv
+      split at hv
+      · rcases List.mem_cons.mp hv with rfl | hv
+        · refine ⟨by simp, ?_⟩
+          apply i3
+          rw [f1]; simp [upd3]
+        · have := i6 v hv
+          exact ⟨by simp [this.1], this.2⟩
+      · have := i6 v hv
+        exact ⟨by simp [this.1], this.2⟩
+    · intro v hv
+      split at hv
+      · rcases List.mem_cons.mp hv with rfl | hv
+        · simp
+        · simp [i7 v hv]
+      · simp [i7 v hv]
+
+theorem regKey_addAll {keyOf : Nat → Key} (s : Nat) (vs : List VInfo) (c : Core) (h : RegKey keyOf c)
+    (hv : ∀ v ∈ vs, VOk keyOf c v) : RegKey keyOf (c.addAll s vs).1 := by
+  induction vs generalizing c with
+  | nil => exact h
+  | cons a vs ih =>
+    simp only [Core.addAll]
+    apply ih _ (regKey_addOrUpdate h s a (hv a (by simp)))
+    intro v hvv
+    have := hv v (by simp [hvv])
+    exact ⟨this.1, by rw [(addOrUpdate_fields c s a).2.2.1]; exact this.2⟩
+
+/-! ### UpdateVolumes, first loop -/
+
+theorem sweepGone_facts (s : Nat) (actual : List VInfo) (t n : Nat) (c : Core) :
+    ((c.sweepGone s actual t n).1.conn = c.conn ∧ (c.sweepGone s actual t n).1.nVid = c.nVid) ∧
+    (∀ s' t' x, (c.sweepGone s actual t n).1.vols s' t' x =
+        if s' = s ∧ t' = t ∧ x < n ∧ actual.any (fun a => a.id == x) = false then none else c.vols s' t' x) ∧
+    (∀ v ∈ (c.sweepGone s actual t n).2, ∃ x, x < n ∧ c.vols s t x = some v ∧ actual.any (fun a => a.id == x) = false) ∧
+    (∀ x v, x < n → c.vols s t x = some v → actual.any (fun a => a.id == x) = false → v ∈ (c.sweepGone s actual t n).2) := by
+  induction n with
+  | zero =>
+    refine ⟨⟨rfl, rfl⟩, ?_, ?_, ?_⟩
+    · intro s' t' x; simp [Core.sweepGone]
+    · intro v hv; simp [Core.sweepGone] at hv
+    · intro x v hx; omega
+  | succ n ih =>
+    obtain ⟨⟨i1, i1'⟩, i2, i3, i4⟩ := ih
+    have hn : (c.sweepGone s actual t n).1.vols s t n = c.vols s t n := by
+      rw [i2]; simp
+    simp only [Core.sweepGone]
+    rw [hn]
+    cases hc : c.vols s t n with
+    | none =>
+      simp only []
+      refine ⟨⟨i1, i1'⟩, ?_, ?_, ?_⟩
+      · intro s' t' x
+        rw [i2]
+        by_cases e : s' = s ∧ t' = t ∧ x = n
+        · obtain ⟨rfl, rfl, rfl⟩ := e
+          simp [hc]
+        · by_cases e2 : s' = s ∧ t' = t ∧ x < n ∧ actual.any (fun a => a.id == x) = false
+          · rw [if_pos e2, if_pos ⟨e2.1, e2.2.1, by omega, e2.2.2.2⟩]
+          · rw [if_neg e2, if_neg]
+            intro ⟨a, b, c', d⟩
+            have : x ≠ n := fun h => e ⟨a, b, h⟩
+            exact e2 ⟨a, b, by omega, d⟩
+      · intro v hv
+        obtain ⟨x, hx, h⟩ := i3 v hv
+        exact ⟨x, by omega, h⟩
+      · intro x v hx h1 h2
+        have : x ≠ n := by intro e; subst e; rw [hc] at h1; cases h1
+        exact i4 x v (by omega) h1 h2
+    | some v0 =>
+      simp only []
+      by_cases ha : actual.any (fun a => a.id == n) = true
+      · simp only [ha, if_true]
+        refine ⟨⟨i1, i1'⟩, ?_, ?_, ?_⟩
+        · intro s' t' x
+          rw [i2]
+          by_cases e2 : s' = s ∧ t' = t ∧ x < n ∧ actual.any (fun a => a.id == x) = false
+          · rw [if_pos e2, if_pos ⟨e2.1, e2.2.1, by omega, e2.2.2.2⟩]
+          · rw [if_neg e2, if_neg]
+            intro ⟨a, b, c', d⟩
+            have : x ≠ n := by intro h; subst h; rw [ha] at d; cases d
+            exact e2 ⟨a, b, by omega, d⟩
+        · intro v hv
+          obtain ⟨x, hx, h⟩ := i3 v hv
+          exact ⟨x, by omega, h⟩
+        · intro x v hx h1 h2
+          have : x ≠ n := by intro e; subst e; rw [ha] at h2; cases h2
+          exact i4 x v (by omega) h1 h2
+      · have ha' : actual.any (fun a => a.id == n) = false := by simpa using ha
+        simp only [ha', Bool.false_eq_true, if_false]
+        refine ⟨⟨i1, i1'⟩, ?_, ?_, ?_⟩
+        · intro s' t' x
+          show upd3 (c.sweepGone s actual t n).1.vols s t n none s' t' x = _
+          unfold upd3
+          by_cases e : s' = s ∧ t' = t ∧ x = n
+          · obtain ⟨rfl, rfl, rfl⟩ := e
+            simp [ha']
+          · rw [if_neg e, i2]
+            by_cases e2 : s' = s ∧ t' = t ∧ x < n ∧ actual.any (fun a => a.id == x) = false
+            · rw [if_pos e2, if_pos ⟨e2.1, e2.2.1, by omega, e2.2.2.2⟩]
+            · rw [if_neg e2, if_neg]
+              intro ⟨a, b, c', d⟩
+              have : x ≠ n := fun h => e ⟨a, b, h⟩
+              exact e2 ⟨a, b, by omega, d⟩
+        · intro v hv
+          rcases List.mem_append.mp hv with hv | hv
+          · obtain ⟨x, hx, h⟩ := i3 v hv
+            exact ⟨x, by omega, h⟩
+          · simp at hv; subst hv
+            exact ⟨n, by omega, hc, ha'⟩
+        · intro x v hx h1 h2
+          by_cases e : x = n
+          · subst e; rw [hc] at h1; cases h1; simp
+          · exact List.mem_append_left _ (i4 x v (by omega) h1 h2)
+
+theorem regKey_of_sub {keyOf : Nat → Key} {c c' : Core} (h : RegKey keyOf c) (hn : c'.nVid = c.nVid)
+    (hs : ∀ s t x v, c'.vols s t x = some v → c.vols s t x = some v) : RegKey keyOf c' := by
+  intro s t x v hv
+  rw [hn]; exact h s t x v (hs s t x v hv)
+
+/-- what the layout phase of a volume heartbeat of server `s` needs to know about its DataNode phase
+    (`c` before, `c'` after; `news` / `dels` / `chg` = the lists handed to RegisterVolumeLayout,
+    UnRegisterVolumeLayout and EnsureCorrectWritables): every change of the registered state is in one of
+    the lists, and the lists only say what the DataNode now has -/
+structure HbFacts (keyOf : Nat → Key) (s : Nat) (c c' : Core) (news dels chg : List VInfo) : Prop where
+  conn : c'.conn = c.conn
+  nVid : c'.nVid = c.nVid
+  other : ∀ s' t x, s' ≠ s → c'.vols s' t x = c.vols s' t x
+  regKey : RegKey keyOf c'
+  covL : ∀ x, (c.vols s (keyOf x).disk x).isSome ≠ (c'.vols s (keyOf x).disk x).isSome →
+    (∃ v ∈ news, v.id = x) ∨ (∃ v ∈ dels, v.id = x)
+  covQ : ∀ x v v', c.vols s (keyOf x).disk x = some v → c'.vols s (keyOf x).disk x = some v' → v.ro ≠ v'.ro →
+    (∃ u ∈ news, u.id = x) ∨ (∃ u ∈ chg, u.id = x)
+  newsOk : ∀ v ∈ news, v.key = keyOf v.id ∧ (c'.vols s (keyOf v.id).disk v.id).isSome = true
+  delsOk : ∀ v ∈ dels, v.key = keyOf v.id ∧ c'.vols s (keyOf v.id).disk v.id = none
+  chgOk : ∀ v ∈ chg, v.key = keyOf v.id
+
+theorem any_id_false {actual : List VInfo} {x : Nat} : actual.any (fun a => a.id == x) = false ↔ ∀ a ∈ actual, a.id ≠ x := by
+  simp [List.any_eq_false]
+
+/-- DataNode.UpdateVolumes (full heartbeat) hands the layouts exactly the changes it made -/
+theorem hb_updateVolumes {keyOf : Nat → Key} (hk : ∀ vid, (keyOf vid).disk < 2) (s : Nat) (c : Core) (actual : List VInfo)
+    (hr : RegKey keyOf c) (hv : ∀ v ∈ actual, VOk keyOf c v) :
+    HbFacts keyOf s c (c.updateVolumes s actual).1 (c.updateVolumes s actual).2.1 (c.updateVolumes s actual).2.2.1
+      (c.updateVolumes s actual).2.2.2 := by
+  obtain ⟨⟨s01, s02⟩, s03, s04, s05⟩ := sweepGone_facts s actual 0 (c.nVid + 1) c
+  obtain ⟨⟨s11, s12⟩, s13, s14, s15⟩ := sweepGone_facts s actual 1 (c.nVid + 1) (c.sweepGone s actual 0 (c.nVid + 1)).1
+  obtain ⟨⟨a1, a1'⟩, a2, a3, a4, a5, a6, a7⟩ := addAll_facts s actual
+    (Core.sweepGone (c.sweepGone s actual 0 (c.nVid + 1)).1 s actual 1 (c.nVid + 1)).1
+  -- the state between the loops, at one slot
+  have c2eq : ∀ s' t x, (Core.sweepGone (c.sweepGone s actual 0 (c.nVid + 1)).1 s actual 1 (c.nVid + 1)).1.vols s' t x =
+      if s' = s ∧ t < 2 ∧ x < c.nVid + 1 ∧ actual.any (fun a => a.id == x) = false then none else c.vols s' t x := by
+    intro s' t x
+    rw [s13, s03]
+    by_cases e1 : s' = s ∧ t = 1 ∧ x < c.nVid + 1 ∧ actual.any (fun a => a.id == x) = false
+    · rw [if_pos e1, if_pos ⟨e1.1, by omega, e1.2.2⟩]
+    · rw [if_neg e1]
+      by_cases e0 : s' = s ∧ t = 0 ∧ x < c.nVid + 1 ∧ actual.any (fun a => a.id == x) = false
+      · rw [if_pos e0, if_pos ⟨e0.1, by omega, e0.2.2⟩]
+      · rw [if_neg e0, if_neg]
+        intro ⟨h1, h2, h3⟩
+        have : t = 0 ∨ t = 1 := by omega
+        rcases this with h | h
+        · exact e0 ⟨h1, h, h3⟩
+        · exact e1 ⟨h1, h, h3⟩
+  have c1eq1 : ∀ x, (c.sweepGone s actual 0 (c.nVid + 1)).1.vols s 1 x = c.vols s 1 x := by
+    intro x; rw [s03]; simp
+  have hrk2 : RegKey keyOf (Core.sweepGone (c.sweepGone s actual 0 (c.nVid + 1)).1 s actual 1 (c.nVid + 1)).1 := by
+    apply regKey_of_sub hr (s12.trans s02)
+    intro s' t x v h
+    rw [c2eq] at h
+    split at h
+    · cases h
+    · exact h
+  have slot : ∀ v ∈ actual, v.key.disk = (keyOf v.id).disk := fun v h => by rw [(hv v h).1]
+  unfold Core.updateVolumes
+  simp only []
+  refine ⟨a1.trans (s11.trans s01), a1'.trans (s12.trans s02), ?_, ?_, ?_, ?_, ?_, ?_, ?_⟩
+  · intro s' t x hs
+    rw [a2 s' t x (Or.inl hs), c2eq]
+    simp [hs]
+  · apply regKey_addAll s actual _ hrk2
+    intro v h
+    exact ⟨(hv v h).1, by rw [s12, s02]; exact (hv v h).2⟩
+  · -- covL
+    intro x hne
+    have hd := hk x
+    cases hc : c.vols s (keyOf x).disk x with
+    | none =>
+      rw [hc] at hne
+      have h2 : (Core.sweepGone (c.sweepGone s actual 0 (c.nVid + 1)).1 s actual 1 (c.nVid + 1)).1.vols s (keyOf x).disk x = none := by
+        rw [c2eq]; split
+        · rfl
+        · exact hc
+      have h3 : ((Core.addAll (Core.sweepGone (c.sweepGone s actual 0 (c.nVid + 1)).1 s actual 1 (c.nVid + 1)).1 s actual).1.vols s (keyOf x).disk x).isSome = true := by
+        cases h : ((Core.addAll (Core.sweepGone (c.sweepGone s actual 0 (c.nVid + 1)).1 s actual 1 (c.nVid + 1)).1 s actual).1.vols s (keyOf x).disk x).isSome
+        · rw [h] at hne; simp at hne
+        · rfl
+      obtain ⟨v, hv1, hv2, _⟩ := a4 _ x h2 h3
+      exact Or.inl ⟨v, hv1, hv2⟩
+    | some v =>
+      rw [hc] at hne
+      obtain ⟨_, hid, _, hx⟩ := hr s _ x v hc
+      by_cases ha : actual.any (fun a => a.id == x) = false
+      · right
+        refine ⟨v, ?_, hid⟩
+        have : (keyOf x).disk = 0 ∨ (keyOf x).disk = 1 := by omega
+        rcases this with h | h
+        · rw [h] at hc
+          exact List.mem_append_left _ (s05 x v hx hc ha)
+        · rw [h] at hc
+          exact List.mem_append_right _ (s15 x v hx (by rw [c1eq1]; exact hc) ha)
+      · exfalso
+        have h2 : ((Core.sweepGone (c.sweepGone s actual 0 (c.nVid + 1)).1 s actual 1 (c.nVid + 1)).1.vols s (keyOf x).disk x).isSome = true := by
+          rw [c2eq, if_neg (fun hh => ha hh.2.2.2), hc]; rfl
+        have := a3 _ x h2
+        rw [this] at hne
+        simp at hne
+  · -- covQ
+    intro x v v' h1 h3 hro
+    obtain ⟨_, hid, _, hx⟩ := hr s _ x v h1
+    have hd := hk x
+    by_cases ha : actual.any (fun a => a.id == x) = false
+    · left
+      have h2 : (Core.sweepGone (c.sweepGone s actual 0 (c.nVid + 1)).1 s actual 1 (c.nVid + 1)).1.vols s (keyOf x).disk x = none := by
+        rw [c2eq, if_pos ⟨rfl, hd, hx, ha⟩]
+      obtain ⟨u, hu1, hu2, _⟩ := a4 _ x h2 (by rw [h3]; rfl)
+      exact ⟨u, hu1, hu2⟩
+    · right
+      have h2 : (Core.sweepGone (c.sweepGone s actual 0 (c.nVid + 1)).1 s actual 1 (c.nVid + 1)).1.vols s (keyOf x).disk x = some v := by
+        rw [c2eq, if_neg (fun hh => ha hh.2.2.2), h1]
+      obtain ⟨u, hu1, hu2, _⟩ := a5 _ x v v' h2 h3 hro
+      exact ⟨u, hu1, hu2⟩
+  · intro v h
+    obtain ⟨m, hs⟩ := a6 v h
+    refine ⟨(hv v m).1, ?_⟩
+    rw [← slot v m]; exact hs
+  · intro v h
+    have key : ∃ t x, t < 2 ∧ x < c.nVid + 1 ∧ c.vols s t x = some v ∧ actual.any (fun a => a.id == x) = false := by
+      rcases List.mem_append.mp h with h | h
+      · obtain ⟨x, hx, h1, h2⟩ := s04 v h
+        exact ⟨0, x, by omega, hx, h1, h2⟩
+      · obtain ⟨x, hx, h1, h2⟩ := s14 v h
+        rw [c1eq1] at h1
+        exact ⟨1, x, by omega, hx, h1, h2⟩
+    obtain ⟨t, x, ht, hx, h1, h2⟩ := key
+    obtain ⟨e1, e2, e3, _⟩ := hr s t x v h1
+    subst e2
+    refine ⟨e3, ?_⟩
+    rw [a2 s _ _ (Or.inr (fun a ha hh => any_id_false.mp h2 a ha hh.2)), c2eq, if_pos ⟨rfl, hk _, hx, h2⟩]
+  · intro v h
+    exact (hv v (a7 v h)).1
+
+/-! ### DeltaUpdateVolumes -/
+
+theorem addAll_fst (s : Nat) (vs : List VInfo) (c : Core) :
+    (c.addAll s vs).1 = vs.foldl (fun c v => (c.addOrUpdate s v).1) c := by
+  induction vs generalizing c with
+  | nil => rfl
+  | cons a vs ih => simp only [Core.addAll, List.foldl_cons]; exact ih _
+
+theorem addAll_listed (s : Nat) (vs : List VInfo) (c : Core) :
+    ∀ v ∈ vs, ((c.addAll s vs).1.vols s v.key.disk v.id).isSome = true := by
+  induction vs generalizing c with
+  | nil => intro v h; cases h
+  | cons a vs ih =>
+    intro v h
+    simp only [Core.addAll]
+    rcases List.mem_cons.mp h with rfl | h
+    · apply (addAll_facts s vs _).2.2.1
+      rw [(addOrUpdate_fields c s v).1]; simp [upd3]
+    · exact ih _ v h
+
+theorem dels_facts (s : Nat) (ds : List VInfo) (c : Core) :
+    ((ds.foldl (fun c v => c.delVol s v.key.disk v.id v.remote) c).conn = c.conn ∧
+     (ds.foldl (fun c v => c.delVol s v.key.disk v.id v.remote) c).nVid = c.nVid) ∧
+    (∀ s' t x, (ds.foldl (fun c v => c.delVol s v.key.disk v.id v.remote) c).vols s' t x =
+      if s' = s ∧ ∃ v ∈ ds, v.key.disk = t ∧ v.id = x then none else c.vols s' t x) := by
+  induction ds generalizing c with
+  | nil => exact ⟨⟨rfl, rfl⟩, fun s' t x => by simp⟩
+  | cons a ds ih =>
+    obtain ⟨⟨i1, i2⟩, i3⟩ := ih (c.delVol s a.key.disk a.id a.remote)
+    simp only [List.foldl_cons]
+    refine ⟨⟨i1, i2⟩, ?_⟩
+    intro s' t x
+    rw [i3]
+    have hv : (c.delVol s a.key.disk a.id a.remote).vols = upd3 c.vols s a.key.disk a.id none := rfl
+    rw [hv]
+    by_cases e : s' = s ∧ ∃ v ∈ ds, v.key.disk = t ∧ v.id = x
+    · rw [if_pos e, if_pos]
+      obtain ⟨e1, v, hv, hh⟩ := e
+      exact ⟨e1, v, by simp [hv], hh⟩
+    · rw [if_neg e]
+      unfold upd3
+      by_cases e2 : s' = s ∧ t = a.key.disk ∧ x = a.id
+      · rw [if_pos e2, if_pos]
+        exact ⟨e2.1, a, by simp, e2.2.1.symm, e2.2.2.symm⟩
+      · rw [if_neg e2]
+        by_cases e3 : s' = s ∧ ∃ v ∈ a :: ds, v.key.disk = t ∧ v.id = x
+        · exfalso
+          obtain ⟨e1, v, hv, hh⟩ := e3
+          rcases List.mem_cons.mp hv with rfl | hv
+          · exact e2 ⟨e1, hh.1.symm, hh.2.symm⟩
+          · exact e ⟨e1, v, hv, hh⟩
+        · rw [if_neg e3]
+
+/-- DataNode.DeltaUpdateVolumes (incremental heartbeat): the new and deleted messages are the changes -/
+theorem hb_deltaUpdateVolumes {keyOf : Nat → Key} (s : Nat) (c : Core) (news dels : List VInfo)
+    (hr : RegKey keyOf c) (hv : ∀ v ∈ news ++ dels, VOk keyOf c v)
+    (hdis : ∀ d ∈ dels, ∀ n ∈ news, d.id ≠ n.id) :
+    HbFacts keyOf s c (c.deltaUpdateVolumes s news dels) news dels [] := by
+  obtain ⟨⟨d1, d2⟩, d3⟩ := dels_facts s dels c
+  unfold Core.deltaUpdateVolumes
+  rw [← addAll_fst]
+  obtain ⟨⟨a1, a1'⟩, a2, a3, a4, a5, a6, a7⟩ := addAll_facts s news
+    (dels.foldl (fun c v => c.delVol s v.key.disk v.id v.remote) c)
+  have slot : ∀ v ∈ news ++ dels, v.key.disk = (keyOf v.id).disk := fun v h => by rw [(hv v h).1]
+  have hrk1 : RegKey keyOf (dels.foldl (fun c v => c.delVol s v.key.disk v.id v.remote) c) := by
+    apply regKey_of_sub hr d2
+    intro s' t x v h
+    rw [d3] at h
+    split at h
+    · cases h
+    · exact h
+  refine ⟨a1.trans d1, a1'.trans d2, ?_, ?_, ?_, ?_, ?_, ?_, ?_⟩
+  · intro s' t x hs
+    rw [a2 s' t x (Or.inl hs), d3]
+    simp [hs]
+  · apply regKey_addAll s news _ hrk1
+    intro v h
+    have := hv v (by simp [h])
+    exact ⟨this.1, by rw [d2]; exact this.2⟩
+  · intro x hne
+    by_cases hn : ∃ v ∈ news, v.id = x
+    · exact Or.inl hn
+    · right
+      have same : (Core.addAll (dels.foldl (fun c v => c.delVol s v.key.disk v.id v.remote) c) s news).1.vols s (keyOf x).disk x =
+          (dels.foldl (fun c v => c.delVol s v.key.disk v.id v.remote) c).vols s (keyOf x).disk x :=
+        a2 s _ x (Or.inr (fun v hv' hh => hn ⟨v, hv', hh.2⟩))
+      rw [same, d3] at hne
+      by_cases e : s = s ∧ ∃ v ∈ dels, v.key.disk = (keyOf x).disk ∧ v.id = x
+      · obtain ⟨_, v, hv1, hv2⟩ := e
+        exact ⟨v, hv1, hv2.2⟩
+      · rw [if_neg e] at hne; exact absurd rfl hne
+  · intro x v v' h1 h2 hro
+    by_cases hn : ∃ u ∈ news, u.id = x
+    · exact Or.inl hn
+    · exfalso
+      have same : (Core.addAll (dels.foldl (fun c v => c.delVol s v.key.disk v.id v.remote) c) s news).1.vols s (keyOf x).disk x =
+          (dels.foldl (fun c v => c.delVol s v.key.disk v.id v.remote) c).vols s (keyOf x).disk x :=
+        a2 s _ x (Or.inr (fun v hv' hh => hn ⟨v, hv', hh.2⟩))
+      rw [same, d3] at h2
+      split at h2
+      · cases h2
+      · rw [h1] at h2; cases h2; exact hro rfl
+  · intro v h
+    refine ⟨(hv v (by simp [h])).1, ?_⟩
+    rw [← slot v (by simp [h])]
+    exact addAll_listed s news _ v h
+  · intro v h
+    refine ⟨(hv v (by simp [h])).1, ?_⟩
+    rw [a2 s _ _ (Or.inr (fun n hn hh => hdis v h n hn hh.2.symm)), d3, if_pos]
+    exact ⟨rfl, v, h, slot v (by simp [h]), rfl⟩
+  · intro v h; cases h
+
+/-! ## the invariant of the whole master state -/
+
+/-- C11 invariant: the writables are justified (`WInv`), and the location list of every volume id in
+    its own layout is exactly the set of connected servers that have it registered -/
+structure Inv (keyOf : Nat → Key) (st : St) : Prop where
+  winv : WInv st
+  wrKey : ∀ k vid, vid ∈ st.wr k → k = keyOf vid
+  regKey : RegKey keyOf st.toCore
+  locs_iff : ∀ vid s, s ∈ locList st (keyOf vid) vid ↔ (st.conn s = true ∧ (st.vols s (keyOf vid).disk vid).isSome = true)
+  other : ∀ k vid, k ≠ keyOf vid → st.locs k vid = none
+  nodup : ∀ vid, (locList st (keyOf vid) vid).Nodup
+  keys : ∀ k vid, st.locs k vid ≠ none → k ∈ st.keys
+
+/-- the invariant in the middle of a heartbeat of server `s`: the DataNode side is already updated, the
+    layouts not yet; `PL` = volume ids whose location list may still be wrong about `s`, `PQ` = volume ids
+    whose place in the writables may still be unjustified -/
+structure InvP (keyOf : Nat → Key) (s : Nat) (PL PQ : Nat → Prop) (st : St) : Prop where
+  wnodup : ∀ k, (st.wr k).Nodup
+  wq : ∀ k vid, vid ∈ st.wr k → ¬ PQ vid → Q st k vid
+  wrKey : ∀ k vid, vid ∈ st.wr k → k = keyOf vid
+  regKey : RegKey keyOf st.toCore
+  locs_iff : ∀ vid s', (s' ≠ s ∨ ¬ PL vid) →
+    (s' ∈ locList st (keyOf vid) vid ↔ (st.conn s' = true ∧ (st.vols s' (keyOf vid).disk vid).isSome = true))
+  other : ∀ k vid, k ≠ keyOf vid → st.locs k vid = none
+  nodup : ∀ vid, (locList st (keyOf vid) vid).Nodup
+  keys : ∀ k vid, st.locs k vid ≠ none → k ∈ st.keys
+
+theorem inv_of_invP {keyOf : Nat → Key} {s : Nat} {PL PQ : Nat → Prop} {st : St} (h : InvP keyOf s PL PQ st)
+    (hl : ∀ x, ¬ PL x) (hq : ∀ x, ¬ PQ x) : Inv keyOf st :=
+  ⟨fun k => ⟨h.wnodup k, fun vid hv => h.wq k vid hv (hq vid)⟩, h.wrKey, h.regKey,
+   fun vid s' => h.locs_iff vid s' (Or.inr (hl vid)), h.other, h.nodup, h.keys⟩
+
+theorem Q_congr_vols {st st' : St} (k : Key) (vid : Nat) (h1 : st'.locs k vid = st.locs k vid)
+    (h2 : st'.vols = st.vols) (h3 : st'.asMin = st.asMin) : Q st' k vid ↔ Q st k vid := by
+  unfold Q enoughCopies isAllWritable volOf Core.volOf locList
+  rw [h1, h2, h3]
+
+/-- bookkeeping shared by all layout-side steps: only the entry of `vid0` in its own layout changes -/
+theorem invP_transfer {keyOf : Nat → Key} {s : Nat} {PL PQ PL' PQ' : Nat → Prop} {st st' : St}
+    (h : InvP keyOf s PL PQ st) (vid0 : Nat) (k0 : Key) (hk : k0 = keyOf vid0)
+    (hcore : st'.toCore = st.toCore) (hasMin : st'.asMin = st.asMin)
+    (hlocs : ∀ k vid, ¬ (k = k0 ∧ vid = vid0) → st'.locs k vid = st.locs k vid)
+    (hkeys : ∀ k, k ∈ st.keys → k ∈ st'.keys)
+    (hk0 : st'.locs (k0) vid0 ≠ none → k0 ∈ st'.keys)
+    (hwn : ∀ k, (st'.wr k).Nodup)
+    (hwr : ∀ k x, x ∈ st'.wr k → x ≠ vid0 → x ∈ st.wr k)
+    (hwk : ∀ k, vid0 ∈ st'.wr k → k = k0)
+    (hq0 : vid0 ∈ st'.wr (k0) → ¬ PQ' vid0 → Q st' (k0) vid0)
+    (hloc0 : ∀ s', s' ≠ s → (s' ∈ locList st' (k0) vid0 ↔ s' ∈ locList st (k0) vid0))
+    (hnd0 : (locList st' (k0) vid0).Nodup)
+    (hs0 : ¬ PL' vid0 → (s ∈ locList st' (k0) vid0 ↔ (st.conn s = true ∧ (st.vols s k0.disk vid0).isSome = true)))
+    (hPL : ∀ x, x ≠ vid0 → ¬ PL' x → ¬ PL x) (hPQ : ∀ x, x ≠ vid0 → ¬ PQ' x → ¬ PQ x) :
+    InvP keyOf s PL' PQ' st' := by
+  subst hk
+  have hconn : st'.conn = st.conn := congrArg Core.conn hcore
+  have hvols : st'.vols = st.vols := congrArg Core.vols hcore
+  have hll : ∀ k vid, ¬ (k = keyOf vid0 ∧ vid = vid0) → locList st' k vid = locList st k vid := by
+    intro k vid hne; unfold locList; rw [hlocs k vid hne]
+  refine ⟨hwn, ?_, ?_, by rw [hcore]; exact h.regKey, ?_, ?_, ?_, ?_⟩
+  · intro k x hx hpq
+    by_cases e : x = vid0
+    · subst e
+      have := hwk k hx; subst this
+      exact hq0 hx hpq
+    · have hne : ¬ (k = keyOf vid0 ∧ x = vid0) := fun hh => e hh.2
+      exact (Q_congr_vols k x (hlocs k x hne) hvols hasMin).mpr (h.wq k x (hwr k x hx e) (hPQ x e hpq))
+  · intro k x hx
+    by_cases e : x = vid0
+    · subst e; exact hwk k hx
+    · exact h.wrKey k x (hwr k x hx e)
+  · intro vid s' hc
+    rw [hconn, hvols]
+    by_cases e : vid = vid0
+    · subst e
+      by_cases es : s' = s
+      · subst es
+        have hpl : ¬ PL' vid := by
+          rcases hc with hc | hc
+          · exact absurd rfl hc
+          · exact hc
+        rw [hs0 hpl]
+      · rw [hloc0 s' es]
+        exact h.locs_iff vid s' (Or.inl es)
+    · rw [hll _ _ (fun hh => e hh.2)]
+      apply h.locs_iff
+      rcases hc with hc | hc
+      · exact Or.inl hc
+      · exact Or.inr (hPL vid e hc)
+  · intro k vid hne
+    have : ¬ (k = keyOf vid0 ∧ vid = vid0) := by
+      intro ⟨e1, e2⟩; subst e2; exact hne e1
+    rw [hlocs k vid this]; exact h.other k vid hne
+  · intro vid
+    by_cases e : vid = vid0
+    · subst e; exact hnd0
+    · rw [hll _ _ (fun hh => e hh.2)]; exact h.nodup vid
+  · intro k vid hne
+    by_cases e : k = keyOf vid0 ∧ vid = vid0
+    · obtain ⟨rfl, rfl⟩ := e; exact hk0 hne
+    · rw [hlocs k vid e] at hne
+      exact hkeys k (h.keys k vid hne)
+
+/-! ### the three layout calls -/
+
+theorem ensure_facts (st1 : St) (k : Key) (vid : Nat) (hn : ∀ k', (st1.wr k').Nodup) :
+    (ensureWritables st1 k vid).locs = st1.locs ∧ (ensureWritables st1 k vid).toCore = st1.toCore ∧
+    (ensureWritables st1 k vid).asMin = st1.asMin ∧ (ensureWritables st1 k vid).keys = st1.keys ∧
+    (∀ k', ((ensureWritables st1 k vid).wr k').Nodup) ∧
+    (∀ k' x, x ∈ (ensureWritables st1 k vid).wr k' → x ∈ st1.wr k' ∨ (k' = k ∧ x = vid)) ∧
+    (vid ∈ (ensureWritables st1 k vid).wr k → Q (ensureWritables st1 k vid) k vid) := by
+  unfold ensureWritables
+  split
+  · next hq =>
+    have hq : Q st1 k vid := by simpa [Q] using hq
+    split
+    · unfold setWritable
+      split
+      · exact ⟨rfl, rfl, rfl, rfl, hn, fun k' x hx => Or.inl hx, fun _ => hq⟩
+      · next hc =>
+        refine ⟨rfl, rfl, rfl, rfl, ?_, ?_, fun _ => (Q_congr k vid rfl rfl rfl).mpr hq⟩
+        · intro k'
+          simp only [updK]
+          split
+          · next e =>
+            subst e
+            rw [List.nodup_append]
+            refine ⟨hn _, by simp, ?_⟩
+            intro a ha b hb
+            simp at hb; subst hb
+            intro e; subst e
+            exact hc (by simpa using ha)
+          · exact hn k'
+        · intro k' x hx
+          simp only [updK] at hx
+          split at hx
+          · next e =>
+            rcases List.mem_append.mp hx with h1 | h1
+            · exact Or.inl (e ▸ h1)
+            · simp at h1; exact Or.inr ⟨e, h1⟩
+          · exact Or.inl hx
+    · exact ⟨rfl, rfl, rfl, rfl, hn, fun k' x hx => Or.inl hx, fun _ => hq⟩
+  · refine ⟨rfl, rfl, rfl, rfl, ?_, ?_, ?_⟩
+    · intro k'
+      simp only [removeWritable, updK]
+      split
+      · next e => subst e; exact (hn _).erase vid
+      · exact hn k'
+    · intro k' x hx
+      simp only [removeWritable, updK] at hx
+      split at hx
+      · next e => subst e; exact Or.inl (List.mem_of_mem_erase hx)
+      · exact Or.inl hx
+    · intro hx
+      simp only [removeWritable, updK, if_true] at hx
+      exact absurd rfl ((List.Nodup.mem_erase_iff (hn k)).mp hx).1
+
+theorem mem_touchKey (st : St) (k : Key) : k ∈ (touchKey st k).keys ∧ ∀ k', k' ∈ st.keys → k' ∈ (touchKey st k).keys := by
+  unfold touchKey
+  split
+  · next h => exact ⟨by simpa using h, fun _ h' => h'⟩
+  · exact ⟨by simp, fun k' h' => by simp [h']⟩
+
+theorem mem_setLoc (l : List Nat) (s x : Nat) : x ∈ setLoc l s ↔ x ∈ l ∨ x = s := by
+  unfold setLoc
+  split
+  · next h =>
+    constructor
+    · exact Or.inl
+    · rintro (h' | rfl)
+      · exact h'
+      · simpa using h
+  · simp
+
+theorem nodup_setLoc {l : List Nat} (h : l.Nodup) (s : Nat) : (setLoc l s).Nodup := by
+  unfold setLoc
+  split
+  · exact h
+  · next hc =>
+    rw [List.nodup_append]
+    refine ⟨h, by simp, ?_⟩
+    intro a ha b hb
+    simp at hb; subst hb
+    intro e; subst e
+    exact hc (by simpa using ha)
+
+/-- EnsureCorrectWritables for a volume id (read-only flag changed) settles its place in the writables -/
+theorem invP_ensure {keyOf : Nat → Key} {s : Nat} {PL PQ : Nat → Prop} {st : St}
+    (h : InvP keyOf s PL PQ st) (vid0 : Nat) :
+    InvP keyOf s PL (fun x => PQ x ∧ x ≠ vid0) (ensureWritables (touchKey st (keyOf vid0)) (keyOf vid0) vid0) := by
+  obtain ⟨t1, t2, t3, t4, _, _⟩ := touchKey_wr st (keyOf vid0)
+  have hn1 : ∀ k', ((touchKey st (keyOf vid0)).wr k').Nodup := by rw [t1]; exact h.wnodup
+  obtain ⟨e1, e2, e3, e4, e5, e6, e7⟩ := ensure_facts (touchKey st (keyOf vid0)) (keyOf vid0) vid0 hn1
+  have mk := mem_touchKey st (keyOf vid0)
+  have hll : locList (ensureWritables (touchKey st (keyOf vid0)) (keyOf vid0) vid0) (keyOf vid0) vid0 = locList st (keyOf vid0) vid0 := by
+    unfold locList; rw [e1, t2]
+  apply invP_transfer h vid0 (keyOf vid0) rfl (e2.trans t3) (e3.trans t4)
+  · intro k vid _; rw [e1, t2]
+  · intro k hk; rw [e4]; exact mk.2 k hk
+  · intro _; rw [e4]; exact mk.1
+  · exact e5
+  · intro k x hx hne
+    rcases e6 k x hx with h1 | h1
+    · rw [t1] at h1; exact h1
+    · exact absurd h1.2 hne
+  · intro k hx
+    rcases e6 k vid0 hx with h1 | h1
+    · rw [t1] at h1; exact h.wrKey k vid0 h1
+    · exact h1.1
+  · intro hx _; exact e7 hx
+  · intro s' _; rw [hll]
+  · rw [hll]; exact h.nodup vid0
+  · intro hpl; rw [hll]
+    exact h.locs_iff vid0 s (Or.inr hpl)
+  · intro x _ hp; exact hp
+  · intro x hne hp hq; exact hp ⟨hq, hne⟩
+
+/-- RegisterVolumeLayout for a volume the DataNode now has -/
+theorem invP_register {keyOf : Nat → Key} {s : Nat} {PL PQ : Nat → Prop} {st : St}
+    (h : InvP keyOf s PL PQ st) (v : VInfo) (hkey : v.key = keyOf v.id) (hc : st.conn s = true)
+    (hreg : (st.vols s (keyOf v.id).disk v.id).isSome = true) :
+    InvP keyOf s (fun x => PL x ∧ x ≠ v.id) (fun x => PQ x ∧ x ≠ v.id) (registerLayout st v s) := by
+  obtain ⟨t1, t2, t3, t4, _, _⟩ := touchKey_wr st v.key
+  have mk := mem_touchKey st v.key
+  -- RegisterVolume
+  have r_core : (registerVolume st v s).toCore = st.toCore := by simp [registerVolume, t3]
+  have r_asMin : (registerVolume st v s).asMin = st.asMin := by simp [registerVolume, t4]
+  have r_keys : (registerVolume st v s).keys = (touchKey st v.key).keys := rfl
+  have r_locs : (registerVolume st v s).locs = updK2 st.locs v.key v.id (some (setLoc (locList st v.key v.id) s)) := by
+    simp only [registerVolume, locList, t2]
+  have r_wr : ∀ k', ((registerVolume st v s).wr k').Nodup ∧ ∀ x, x ∈ (registerVolume st v s).wr k' → x ∈ st.wr k' := by
+    intro k'
+    simp only [registerVolume, t1]
+    split
+    · unfold updK
+      split
+      · next e => subst e; exact ⟨(h.wnodup _).erase _, fun x hx => List.mem_of_mem_erase hx⟩
+      · exact ⟨h.wnodup k', fun x hx => hx⟩
+    · exact ⟨h.wnodup k', fun x hx => hx⟩
+  obtain ⟨e1, e2, e3, e4, e5, e6, e7⟩ := ensure_facts (registerVolume st v s) v.key v.id (fun k' => (r_wr k').1)
+  have hll : locList (registerLayout st v s) v.key v.id = setLoc (locList st v.key v.id) s := by
+    unfold registerLayout locList; rw [e1, r_locs]; simp [updK2]
+    rfl
+  have hreg' : (st.vols s v.key.disk v.id).isSome = true := by rw [hkey]; exact hreg
+  unfold registerLayout at hll ⊢
+  apply invP_transfer h v.id v.key hkey (e2.trans r_core) (e3.trans r_asMin)
+  · intro k vid hne; rw [e1, r_locs]; simp [updK2, hne]
+  · intro k hk; rw [e4, r_keys]; exact mk.2 k hk
+  · intro _; rw [e4, r_keys]; exact mk.1
+  · exact e5
+  · intro k x hx hne
+    rcases e6 k x hx with h1 | h1
+    · exact (r_wr k).2 x h1
+    · exact absurd h1.2 hne
+  · intro k hx
+    rcases e6 k v.id hx with h1 | h1
+    · rw [h.wrKey k v.id ((r_wr k).2 _ h1), hkey]
+    · exact h1.1
+  · intro hx _; exact e7 hx
+  · intro s' hs'; rw [hll, mem_setLoc]; simp [hs']
+  · rw [hll]; rw [hkey]; exact nodup_setLoc (h.nodup v.id) s
+  · intro _; rw [hll, mem_setLoc]; simp [hreg', hc]
+  · intro x hne hp hq; exact hp ⟨hq, hne⟩
+  · intro x hne hp hq; exact hp ⟨hq, hne⟩
+
+theorem InvP.mono {keyOf : Nat → Key} {s : Nat} {PL PQ PL' PQ' : Nat → Prop} {st : St} (h : InvP keyOf s PL PQ st)
+    (hl : ∀ x, ¬ PL' x → ¬ PL x) (hq : ∀ x, ¬ PQ' x → ¬ PQ x) : InvP keyOf s PL' PQ' st :=
+  ⟨h.wnodup, fun k vid hv hp => h.wq k vid hv (hq vid hp), h.wrKey, h.regKey,
+   fun vid s' hc => h.locs_iff vid s' (hc.imp id (hl vid)), h.other, h.nodup, h.keys⟩
+
+/-- UnRegisterVolumeLayout for a volume the DataNode no longer has -/
+theorem invP_unregister {keyOf : Nat → Key} {s : Nat} {PL PQ : Nat → Prop} {st : St}
+    (h : InvP keyOf s PL PQ st) (v : VInfo) (hkey : v.key = keyOf v.id)
+    (hunreg : st.vols s (keyOf v.id).disk v.id = none) :
+    InvP keyOf s (fun x => PL x ∧ x ≠ v.id) PQ (unregisterLayout st v s) := by
+  obtain ⟨t1, t2, t3, t4, _, _⟩ := touchKey_wr st v.key
+  have mk := mem_touchKey st v.key
+  have hunreg' : (st.vols s v.key.disk v.id).isSome = false := by rw [hkey, hunreg]; rfl
+  -- the cases in which nothing but the key list changes
+  have caseA : s ∉ locList st v.key v.id → InvP keyOf s (fun x => PL x ∧ x ≠ v.id) PQ (touchKey st v.key) := by
+    intro hs
+    have hll : locList (touchKey st v.key) v.key v.id = locList st v.key v.id := by unfold locList; rw [t2]
+    apply invP_transfer h v.id v.key hkey t3 t4
+    · intro k vid _; rw [t2]
+    · exact mk.2
+    · intro _; exact mk.1
+    · rw [t1]; exact h.wnodup
+    · intro k x hx _; rw [t1] at hx; exact hx
+    · intro k hx; rw [t1] at hx; rw [h.wrKey k _ hx, hkey]
+    · intro hx hq; rw [t1] at hx
+      exact (Q_congr_vols v.key v.id (by rw [t2]) (congrArg Core.vols t3) t4).mpr (h.wq _ _ hx hq)
+    · intro s' _; rw [hll]
+    · rw [hll, hkey]; exact h.nodup v.id
+    · intro _; rw [hll, hunreg']; simp [hs]
+    · intro x hne hp hq; exact hp ⟨hq, hne⟩
+    · intro x _ hp; exact hp
+  simp only [unregisterLayout]
+  split
+  · next hnone =>
+    apply caseA
+    unfold locList; rw [← t2, hnone]; simp
+  · next l hl =>
+    have hl' : locList st v.key v.id = l := by unfold locList; rw [← t2, hl]; rfl
+    split
+    · next hcont =>
+      -- the entry of `s` is erased, EnsureCorrectWritables, an empty entry is dropped
+      have hnd : l.Nodup := by rw [← hl', hkey]; exact h.nodup v.id
+      have hn2 : ∀ k', (({ touchKey st v.key with
+          locs := updK2 (touchKey st v.key).locs v.key v.id (some (l.erase s)),
+          ov := updK2 (touchKey st v.key).ov v.key v.id (((touchKey st v.key).ov v.key v.id).erase s) } : St).wr k').Nodup := by
+        intro k'; show ((touchKey st v.key).wr k').Nodup; rw [t1]; exact h.wnodup k'
+      obtain ⟨e1, e2, e3, e4, e5, e6, e7⟩ := ensure_facts ({ touchKey st v.key with
+          locs := updK2 (touchKey st v.key).locs v.key v.id (some (l.erase s)),
+          ov := updK2 (touchKey st v.key).ov v.key v.id (((touchKey st v.key).ov v.key v.id).erase s) } : St) v.key v.id hn2
+      have key : ∀ st' : St, st'.toCore = st.toCore → st'.asMin = st.asMin → st'.keys = (touchKey st v.key).keys →
+          (∀ k vid, ¬ (k = v.key ∧ vid = v.id) → st'.locs k vid = st.locs k vid) →
+          locList st' v.key v.id = l.erase s →
+          (∀ k', (st'.wr k').Nodup) → (∀ k' x, x ∈ st'.wr k' → x ∈ st.wr k' ∨ (k' = v.key ∧ x = v.id)) →
+          (v.id ∈ st'.wr v.key → Q st' v.key v.id) →
+          InvP keyOf s (fun x => PL x ∧ x ≠ v.id) PQ st' := by
+        intro st' c1 c2 c3 c4 c5 c6 c7 c8
+        apply invP_transfer h v.id v.key hkey c1 c2 c4
+        · intro k hk; rw [c3]; exact mk.2 k hk
+        · intro _; rw [c3]; exact mk.1
+        · exact c6
+        · intro k x hx hne
+          rcases c7 k x hx with h1 | h1
+          · exact h1
+          · exact absurd h1.2 hne
+        · intro k hx
+          rcases c7 k v.id hx with h1 | h1
+          · rw [h.wrKey k _ h1, hkey]
+          · exact h1.1
+        · intro hx _; exact c8 hx
+        · intro s' hs'; rw [c5, hl']; exact List.mem_erase_of_ne hs'
+        · rw [c5]; exact hnd.erase s
+        · intro _; rw [c5, hunreg']
+          have : s ∉ l.erase s := fun hh => ((List.Nodup.mem_erase_iff hnd).mp hh).1 rfl
+          simp [this]
+        · intro x hne hp hq; exact hp ⟨hq, hne⟩
+        · intro x _ hp; exact hp
+      have hlocs3 : ∀ k vid, ¬ (k = v.key ∧ vid = v.id) →
+          (ensureWritables ({ touchKey st v.key with
+            locs := updK2 (touchKey st v.key).locs v.key v.id (some (l.erase s)),
+            ov := updK2 (touchKey st v.key).ov v.key v.id (((touchKey st v.key).ov v.key v.id).erase s) } : St) v.key v.id).locs k vid
+            = st.locs k vid := by
+        intro k vid hne; rw [e1]; simp only [updK2, hne, if_false]; rw [t2]
+      have hll3 : locList (ensureWritables ({ touchKey st v.key with
+            locs := updK2 (touchKey st v.key).locs v.key v.id (some (l.erase s)),
+            ov := updK2 (touchKey st v.key).ov v.key v.id (((touchKey st v.key).ov v.key v.id).erase s) } : St) v.key v.id) v.key v.id
+            = l.erase s := by
+        unfold locList; rw [e1]; simp [updK2]
+      have hwr3 : ∀ k' x, x ∈ (ensureWritables ({ touchKey st v.key with
+            locs := updK2 (touchKey st v.key).locs v.key v.id (some (l.erase s)),
+            ov := updK2 (touchKey st v.key).ov v.key v.id (((touchKey st v.key).ov v.key v.id).erase s) } : St) v.key v.id).wr k' →
+            x ∈ st.wr k' ∨ (k' = v.key ∧ x = v.id) := by
+        intro k' x hx
+        rcases e6 k' x hx with h1 | h1
+        · left; have : x ∈ (touchKey st v.key).wr k' := h1; rw [t1] at this; exact this
+        · exact Or.inr h1
+      have c1 := e2.trans t3
+      have c2 := e3.trans t4
+      generalize ensureWritables ({ touchKey st v.key with
+            locs := updK2 (touchKey st v.key).locs v.key v.id (some (l.erase s)),
+            ov := updK2 (touchKey st v.key).ov v.key v.id (((touchKey st v.key).ov v.key v.id).erase s) } : St) v.key v.id = st3
+        at e4 e5 e7 hlocs3 hll3 hwr3 c1 c2 ⊢
+      split
+      · next hemp =>
+        have hempty : l.erase s = [] := List.isEmpty_iff.mp hemp
+        apply key ({ st3 with locs := updK2 st3.locs v.key v.id none } : St) c1 c2 e4
+        · intro k vid hne
+          show updK2 _ v.key v.id none k vid = _
+          simp only [updK2, hne, if_false]
+          exact hlocs3 k vid hne
+        · unfold locList; simp [updK2, hempty]
+        · exact e5
+        · exact hwr3
+        · intro hx
+          have hq : Q ({ st3 with locs := updK2 st3.locs v.key v.id none } : St) v.key v.id ↔ Q st3 v.key v.id := by
+            exact Q_congr (st' := ({ st3 with locs := updK2 st3.locs v.key v.id none } : St)) (st := st3) v.key v.id
+              (by rw [hll3]; unfold locList; simp [updK2, hempty]) rfl rfl
+          exact hq.mpr (e7 hx)
+      · exact key st3 c1 c2 e4 hlocs3 hll3 e5 hwr3 e7
+    · next hcont =>
+      apply caseA
+      rw [hl']; simpa using hcont
+
+/-! ### event lists -/
+
+def clearsL : Ev → Nat → Prop
+  | .register v _, x => x = v.id
+  | .unregister v _, x => x = v.id
+  | _, _ => False
+
+def clearsQ : Ev → Nat → Prop
+  | .register v _, x => x = v.id
+  | .ensure _ vid, x => x = vid
+  | _, _ => False
+
+/-- a layout call of a heartbeat of `s` agrees with what the DataNode `c` now has -/
+def EvOk (keyOf : Nat → Key) (s : Nat) (c : Core) : Ev → Prop
+  | .register v s0 => s0 = s ∧ v.key = keyOf v.id ∧ c.conn s = true ∧ (c.vols s (keyOf v.id).disk v.id).isSome = true
+  | .unregister v s0 => s0 = s ∧ v.key = keyOf v.id ∧ c.vols s (keyOf v.id).disk v.id = none
+  | .ensure k vid => k = keyOf vid
+  | .capacityFull _ _ => False
+
+theorem touchKey_toCore (st : St) (k : Key) : (touchKey st k).toCore = st.toCore := (touchKey_wr st k).2.2.1
+theorem ensureWritables_toCore (st : St) (k : Key) (v : Nat) : (ensureWritables st k v).toCore = st.toCore := by
+  unfold ensureWritables setWritable removeWritable; split
+  · split
+    · split <;> rfl
+    · rfl
+  · rfl
+theorem registerLayout_toCore (st : St) (v : VInfo) (s : Nat) : (registerLayout st v s).toCore = st.toCore := by
+  unfold registerLayout; rw [ensureWritables_toCore]; simp [registerVolume, touchKey_toCore]
+theorem unregisterLayout_toCore (st : St) (v : VInfo) (s : Nat) : (unregisterLayout st v s).toCore = st.toCore := by
+  simp only [unregisterLayout]
+  split
+  · exact touchKey_toCore _ _
+  · split
+    · split
+      · show (ensureWritables _ _ _).toCore = _; rw [ensureWritables_toCore]; exact touchKey_toCore _ _
+      · rw [ensureWritables_toCore]; exact touchKey_toCore _ _
+    · exact touchKey_toCore _ _
+theorem setUnavailable_toCore (st : St) (v : VInfo) (s : Nat) : (setUnavailable st v s).toCore = st.toCore := by
+  simp only [setUnavailable]
+  split
+  · exact touchKey_toCore _ _
+  · split
+    · split
+      · show (touchKey st v.key).toCore = _; exact touchKey_toCore _ _
+      · show (touchKey st v.key).toCore = _; exact touchKey_toCore _ _
+    · exact touchKey_toCore _ _
+
+theorem applyEv_core (st : St) (ev : Ev) : (applyEv st ev).toCore = st.toCore := by
+  cases ev with
+  | register v s => exact registerLayout_toCore st v s
+  | unregister v s => exact unregisterLayout_toCore st v s
+  | ensure k vid => show (ensureWritables _ _ _).toCore = _; rw [ensureWritables_toCore]; exact touchKey_toCore _ _
+  | capacityFull k vid => show (touchKey st k).toCore = _; exact touchKey_toCore _ _
+
+theorem invP_ev {keyOf : Nat → Key} {s : Nat} {PL PQ : Nat → Prop} {st : St} (h : InvP keyOf s PL PQ st)
+    (ev : Ev) (hok : EvOk keyOf s st.toCore ev) :
+    InvP keyOf s (fun x => PL x ∧ ¬ clearsL ev x) (fun x => PQ x ∧ ¬ clearsQ ev x) (applyEv st ev) := by
+  cases ev with
+  | register v s0 =>
+    obtain ⟨rfl, h1, h2, h3⟩ := hok
+    exact invP_register h v h1 h2 h3
+  | unregister v s0 =>
+    obtain ⟨rfl, h1, h2⟩ := hok
+    exact (invP_unregister h v h1 h2).mono (fun x hx => hx) (fun x hx hq => hx ⟨hq, fun f => f⟩)
+  | ensure k vid =>
+    have hk : k = keyOf vid := hok
+    subst hk
+    exact (invP_ensure h vid).mono (fun x hx hl => hx ⟨hl, fun f => f⟩) (fun x hx => hx)
+  | capacityFull k vid => exact hok.elim
+
+/-- a list of layout calls that covers everything pending restores the invariant -/
+theorem invP_evs {keyOf : Nat → Key} {s : Nat} (evs : List Ev) : ∀ (st : St) (PL PQ : Nat → Prop),
+    InvP keyOf s PL PQ st → (∀ ev ∈ evs, EvOk keyOf s st.toCore ev) →
+    (∀ x, PL x → ∃ ev ∈ evs, clearsL ev x) → (∀ x, PQ x → ∃ ev ∈ evs, clearsQ ev x) →
+    Inv keyOf (evs.foldl applyEv st) ∧ (evs.foldl applyEv st).toCore = st.toCore := by
+  induction evs with
+  | nil =>
+    intro st PL PQ h _ hl hq
+    exact ⟨inv_of_invP h (fun x hx => by obtain ⟨_, hm, _⟩ := hl x hx; cases hm)
+      (fun x hx => by obtain ⟨_, hm, _⟩ := hq x hx; cases hm), rfl⟩
+  | cons ev evs ih =>
+    intro st PL PQ h hok hl hq
+    simp only [List.foldl_cons]
+    have h1 := invP_ev h ev (hok ev (by simp))
+    have hc := applyEv_core st ev
+    have := ih (applyEv st ev) _ _ h1 (fun e he => by rw [hc]; exact hok e (by simp [he]))
+      (fun x ⟨hx, hn⟩ => by
+        obtain ⟨e, he, hcl⟩ := hl x hx
+        rcases List.mem_cons.mp he with rfl | he
+        · exact absurd hcl hn
+        · exact ⟨e, he, hcl⟩)
+      (fun x ⟨hx, hn⟩ => by
+        obtain ⟨e, he, hcl⟩ := hq x hx
+        rcases List.mem_cons.mp he with rfl | he
+        · exact absurd hcl hn
+        · exact ⟨e, he, hcl⟩)
+    exact ⟨this.1, this.2.trans hc⟩
+
+/-- the layout calls of a volume heartbeat -/
+def hbEvs (s : Nat) (news dels chg : List VInfo) : List Ev :=
+  news.map (fun v => Ev.register v s) ++ dels.map (fun v => Ev.unregister v s) ++ chg.map (fun v => Ev.ensure v.key v.id)
+
+/-- a volume heartbeat (DataNode phase described by `HbFacts`, then the layout calls) keeps the invariant -/
+theorem inv_heartbeat {keyOf : Nat → Key} (hk : ∀ vid, (keyOf vid).disk < 2) {st : St} (h : Inv keyOf st) (s : Nat)
+    (hc : st.conn s = true) (c' : Core) (news dels chg : List VInfo)
+    (F : HbFacts keyOf s st.toCore c' news dels chg) :
+    Inv keyOf ((hbEvs s news dels chg).foldl applyEv { st with toCore := c' }) := by
+  have hP : InvP keyOf s
+      (fun x => (st.vols s (keyOf x).disk x).isSome ≠ (c'.vols s (keyOf x).disk x).isSome)
+      (fun x => ∃ v v', st.vols s (keyOf x).disk x = some v ∧ c'.vols s (keyOf x).disk x = some v' ∧ v.ro ≠ v'.ro)
+      ({ st with toCore := c' } : St) := by
+    refine ⟨fun k => (h.winv k).1, ?_, h.wrKey, F.regKey, ?_,
+      h.other, h.nodup, h.keys⟩
+    · intro k vid hv hpq
+      have hq := (h.winv k).2 vid hv
+      have hkk := h.wrKey k vid hv
+      subst hkk
+      refine ⟨hq.1, ?_⟩
+      have ha := hq.2
+      unfold isAllWritable at ha ⊢
+      rw [List.all_eq_true] at ha ⊢
+      intro dn hdn
+      have hdn' : dn ∈ locList st (keyOf vid) vid := hdn
+      have old := ha dn hdn'
+      show (match Core.volOf c' dn vid with | some v => !v.ro | none => true) = true
+      have old' : (match Core.volOf st.toCore dn vid with | some v => !v.ro | none => true) = true := old
+      rw [volOf_eq hk F.regKey]
+      rw [volOf_eq hk h.regKey] at old'
+      by_cases e : dn = s
+      · subst e
+        cases h2 : c'.vols dn (keyOf vid).disk vid with
+        | none => rfl
+        | some v' =>
+          have := ((h.locs_iff vid dn).mp hdn').2
+          cases h1 : st.vols dn (keyOf vid).disk vid with
+          | none => rw [h1] at this; cases this
+          | some v =>
+            have h1' : st.toCore.vols dn (keyOf vid).disk vid = some v := h1
+            rw [h1'] at old'
+            have : v.ro = v'.ro := by
+              by_cases q : v.ro = v'.ro
+              · exact q
+              · exact absurd ⟨v, v', h1, h2, q⟩ hpq
+            simp only [] at old' ⊢
+            rw [← this]; exact old'
+      · rw [F.other dn _ _ e]; exact old'
+    · intro vid s' hcond
+      show s' ∈ locList st (keyOf vid) vid ↔ (c'.conn s' = true ∧ (c'.vols s' (keyOf vid).disk vid).isSome = true)
+      rw [F.conn, h.locs_iff]
+      by_cases e : s' = s
+      · subst e
+        rcases hcond with hh | hh
+        · exact absurd rfl hh
+        · have : (st.vols s' (keyOf vid).disk vid).isSome = (c'.vols s' (keyOf vid).disk vid).isSome :=
+            Decidable.of_not_not hh
+          rw [← this]
+      · rw [F.other s' _ _ e]
+  refine (invP_evs (hbEvs s news dels chg) _ _ _ hP ?_ ?_ ?_).1
+  · intro ev hev
+    unfold hbEvs at hev
+    rcases List.mem_append.mp hev with hev | hev
+    · rcases List.mem_append.mp hev with hev | hev
+      · obtain ⟨v, hv, rfl⟩ := List.mem_map.mp hev
+        exact ⟨rfl, (F.newsOk v hv).1, by show c'.conn s = true; rw [F.conn]; exact hc, (F.newsOk v hv).2⟩
+      · obtain ⟨v, hv, rfl⟩ := List.mem_map.mp hev
+        exact ⟨rfl, F.delsOk v hv⟩
+    · obtain ⟨v, hv, rfl⟩ := List.mem_map.mp hev
+      exact F.chgOk v hv
+  · intro x hx
+    rcases F.covL x hx with ⟨v, hv, rfl⟩ | ⟨v, hv, rfl⟩
+    · exact ⟨Ev.register v s, List.mem_append_left _ (List.mem_append_left _ (List.mem_map.mpr ⟨v, hv, rfl⟩)), rfl⟩
+    · exact ⟨Ev.unregister v s, List.mem_append_left _ (List.mem_append_right _ (List.mem_map.mpr ⟨v, hv, rfl⟩)), rfl⟩
+  · intro x ⟨v, v', h1, h2, h3⟩
+    rcases F.covQ x v v' h1 h2 h3 with ⟨u, hu, rfl⟩ | ⟨u, hu, rfl⟩
+    · exact ⟨Ev.register u s, List.mem_append_left _ (List.mem_append_left _ (List.mem_map.mpr ⟨u, hu, rfl⟩)), rfl⟩
+    · exact ⟨Ev.ensure u.key u.id, List.mem_append_right _ (List.mem_map.mpr ⟨u, hu, rfl⟩), rfl⟩
+
+/-! ## every top-level operation of the model keeps the invariant -/
+
+theorem syncFull_eq (st : St) (s : Nat) (actual : List VInfo) (hc : st.conn s = true) :
+    syncFull st s actual =
+      (hbEvs s (st.toCore.updateVolumes s actual).2.1 (st.toCore.updateVolumes s actual).2.2.1
+        (st.toCore.updateVolumes s actual).2.2.2).foldl applyEv { st with toCore := (st.toCore.updateVolumes s actual).1 } := by
+  simp only [syncFull, hc, Bool.not_true, Bool.false_eq_true, if_false, hbEvs, List.foldl_append, List.foldl_map]
+  rfl
+
+theorem syncInc_eq (st : St) (s : Nat) (news dels : List VInfo) (hc : st.conn s = true) :
+    syncInc st s news dels =
+      (hbEvs s news dels []).foldl applyEv { st with toCore := st.toCore.deltaUpdateVolumes s news dels } := by
+  simp only [syncInc, hc, Bool.not_true, Bool.false_eq_true, if_false, hbEvs, List.foldl_append, List.foldl_map,
+    List.map_nil, List.foldl_nil]
+  rfl
+
+/-- Topology.SyncDataNodeRegistration (full volume heartbeat) -/
+theorem inv_full {keyOf : Nat → Key} (hk : ∀ vid, (keyOf vid).disk < 2) {st : St} (h : Inv keyOf st) (s : Nat)
+    (actual : List VInfo) (hv : ∀ v ∈ actual, VOk keyOf st.toCore v) : Inv keyOf (syncFull st s actual) := by
+  by_cases hc : st.conn s = true
+  · rw [syncFull_eq st s actual hc]
+    exact inv_heartbeat hk h s hc _ _ _ _ (hb_updateVolumes hk s st.toCore actual h.regKey hv)
+  · have : st.conn s = false := by simpa using hc
+    simp [syncFull, this]; exact h
+
+/-- Topology.IncrementalSyncDataNodeRegistration -/
+theorem inv_inc {keyOf : Nat → Key} (hk : ∀ vid, (keyOf vid).disk < 2) {st : St} (h : Inv keyOf st) (s : Nat)
+    (news dels : List VInfo) (hv : ∀ v ∈ news ++ dels, VOk keyOf st.toCore v)
+    (hdis : ∀ d ∈ dels, ∀ n ∈ news, d.id ≠ n.id) : Inv keyOf (syncInc st s news dels) := by
+  by_cases hc : st.conn s = true
+  · rw [syncInc_eq st s news dels hc]
+    exact inv_heartbeat hk h s hc _ _ _ _ (hb_deltaUpdateVolumes s st.toCore news dels h.regKey hv hdis)
+  · have : st.conn s = false := by simpa using hc
+    simp [syncInc, this]; exact h
+
+/-- the invariant only reads the registered volumes, the connection flags, the layouts and the writables -/
+theorem inv_frame {keyOf : Nat → Key} {st st' : St} (h : Inv keyOf st) (h1 : st'.vols = st.vols) (h2 : st'.conn = st.conn)
+    (h3 : st'.nVid = st.nVid) (h4 : st'.locs = st.locs) (h5 : st'.wr = st.wr) (h6 : st'.asMin = st.asMin)
+    (h7 : ∀ k, k ∈ st.keys → k ∈ st'.keys) : Inv keyOf st' := by
+  have hll : ∀ k vid, locList st' k vid = locList st k vid := by intro k vid; unfold locList; rw [h4]
+  refine ⟨?_, ?_, ?_, ?_, ?_, ?_, ?_⟩
+  · intro k
+    rw [h5]
+    exact ⟨(h.winv k).1, fun vid hv => (Q_congr_vols k vid (by rw [h4]) h1 h6).mpr ((h.winv k).2 vid hv)⟩
+  · rw [h5]; exact h.wrKey
+  · intro s t x v hv
+    have : st.vols s t x = some v := by rw [← h1]; exact hv
+    have := h.regKey s t x v this
+    exact ⟨this.1, this.2.1, this.2.2.1, by show x < st'.nVid + 1; rw [h3]; exact this.2.2.2⟩
+  · intro vid s; rw [hll, h2, h1]; exact h.locs_iff vid s
+  · rw [h4]; exact h.other
+  · intro vid; rw [hll]; exact h.nodup vid
+  · intro k vid hne; rw [h4] at hne; exact h7 k (h.keys k vid hne)
+
+/-! ### operations that do not touch volumes or layouts: max counts, EC heartbeats -/
+
+/-- the part of the DataNode side the invariant reads -/
+def CSame (c' c : Core) : Prop := c'.vols = c.vols ∧ c'.conn = c.conn ∧ c'.nVid = c.nVid
+
+theorem CSame.trans {a b c : Core} (h1 : CSame a b) (h2 : CSame b c) : CSame a c :=
+  ⟨h1.1.trans h2.1, h1.2.1.trans h2.2.1, h1.2.2.trans h2.2.2⟩
+
+theorem csame_foldl {α : Type} (f : Core → α → Core) (hf : ∀ c a, CSame (f c a) c) (l : List α) (c : Core) :
+    CSame (l.foldl f c) c := by
+  induction l generalizing c with
+  | nil => exact ⟨rfl, rfl, rfl⟩
+  | cons a l ih => simp only [List.foldl_cons]; exact (ih _).trans (hf c a)
+
+theorem csame_foldl_prod {α β : Type} (f : Core × β → α → Core × β) (hf : ∀ acc a, CSame (f acc a).1 acc.1) (l : List α)
+    (acc : Core × β) : CSame (l.foldl f acc).1 acc.1 := by
+  induction l generalizing acc with
+  | nil => exact ⟨rfl, rfl, rfl⟩
+  | cons a l ih => simp only [List.foldl_cons]; exact (ih _).trans (hf acc a)
+
+theorem csame_adjustMax (c : Core) (s mh ms : Nat) : CSame (c.adjustMax s mh ms) c := by
+  have h1 : ∀ (c : Core) t m, CSame (c.adjustMax1 s t m) c := by
+    intro c t m; unfold Core.adjustMax1; split
+    · exact ⟨rfl, rfl, rfl⟩
+    · split <;> exact ⟨rfl, rfl, rfl⟩
+  unfold Core.adjustMax
+  split
+  · exact (h1 _ _ _).trans (h1 _ _ _)
+  · exact ⟨rfl, rfl, rfl⟩
+
+theorem csame_updateEcShards (c : Core) (s : Nat) (actual : List EcInfo) : CSame (c.updateEcShards s actual).1 c := by
+  have l1 := csame_foldl_prod (Core.ecStep1 s actual)
+    (by intro acc e; unfold Core.ecStep1; split <;> exact ⟨rfl, rfl, rfl⟩) (c.ecOf s) (c, [], [])
+  have l2 := csame_foldl_prod (Core.ecStep2 c s)
+    (by intro acc e; unfold Core.ecStep2; split <;> exact ⟨rfl, rfl, rfl⟩) actual
+    ((List.foldl (Core.ecStep1 s actual) (c, [], []) (c.ecOf s)).1, (List.foldl (Core.ecStep1 s actual) (c, [], []) (c.ecOf s)).2.1)
+  unfold Core.updateEcShards
+  simp only []
+  split
+  · exact l2.trans l1
+  · exact ((csame_foldl (Core.ecStore s) (fun _ _ => ⟨rfl, rfl, rfl⟩) actual _).trans ⟨rfl, rfl, rfl⟩).trans (l2.trans l1)
+
+theorem csame_deltaUpdateEcShards (c : Core) (s : Nat) (news dels : List EcInfo) :
+    CSame (c.deltaUpdateEcShards s news dels) c := by
+  unfold Core.deltaUpdateEcShards
+  refine (csame_foldl _ ?_ dels _).trans (csame_foldl _ ?_ news c)
+  · intro c e; simp only [Core.delEc]; split <;> exact ⟨rfl, rfl, rfl⟩
+  · intro c e; exact ⟨rfl, rfl, rfl⟩
+
+/-- the part of the layout side the invariant reads -/
+def LSame (st' st : St) : Prop :=
+  st'.toCore = st.toCore ∧ st'.locs = st.locs ∧ st'.wr = st.wr ∧ st'.asMin = st.asMin ∧ st'.keys = st.keys
+
+theorem lsame_foldl {α : Type} (f : St → α → St) (hf : ∀ st a, LSame (f st a) st) (l : List α) (st : St) :
+    LSame (l.foldl f st) st := by
+  induction l generalizing st with
+  | nil => exact ⟨rfl, rfl, rfl, rfl, rfl⟩
+  | cons a l ih =>
+    simp only [List.foldl_cons]
+    have h1 := ih (f st a)
+    have h2 := hf st a
+    exact ⟨h1.1.trans h2.1, h1.2.1.trans h2.2.1, h1.2.2.1.trans h2.2.2.1, h1.2.2.2.1.trans h2.2.2.2.1,
+      h1.2.2.2.2.trans h2.2.2.2.2⟩
+
+theorem lsame_registerEc (st : St) (vid bits s : Nat) : LSame (registerEc st vid bits s) st := by
+  unfold registerEc; apply lsame_foldl; intro _ _; exact ⟨rfl, rfl, rfl, rfl, rfl⟩
+theorem lsame_unregisterEc (st : St) (vid bits s : Nat) : LSame (unregisterEc st vid bits s) st := by
+  unfold unregisterEc; apply lsame_foldl; intro _ _; exact ⟨rfl, rfl, rfl, rfl, rfl⟩
+
+theorem inv_of_same {keyOf : Nat → Key} {st : St} (h : Inv keyOf st) (c' : Core) (hc : CSame c' st.toCore) (st' : St)
+    (hl : LSame st' { st with toCore := c' }) : Inv keyOf st' := by
+  obtain ⟨l1, l2, l3, l4, l5⟩ := hl
+  refine inv_frame h ?_ ?_ ?_ l2 l3 l4 (fun k hk => by rw [l5]; exact hk)
+  · show st'.toCore.vols = _; rw [l1]; exact hc.1
+  · show st'.toCore.conn = _; rw [l1]; exact hc.2.1
+  · show st'.toCore.nVid = _; rw [l1]; exact hc.2.2
+
+theorem inv_max {keyOf : Nat → Key} {st : St} (h : Inv keyOf st) (s mh ms : Nat) : Inv keyOf (adjustMax st s mh ms) :=
+  inv_of_same h _ (csame_adjustMax st.toCore s mh ms) _ ⟨rfl, rfl, rfl, rfl, rfl⟩
+
+theorem inv_ecfull {keyOf : Nat → Key} {st : St} (h : Inv keyOf st) (s : Nat) (es : List EcInfo) :
+    Inv keyOf (syncEcFull st s es) := by
+  unfold syncEcFull
+  split
+  · exact h
+  · refine inv_of_same h _ (csame_updateEcShards st.toCore s es) _ ?_
+    have a := lsame_foldl (fun st e => registerEc st e.1 e.2 s) (fun st e => lsame_registerEc st e.1 e.2 s)
+      (st.toCore.updateEcShards s es).2.1 { st with toCore := (st.toCore.updateEcShards s es).1 }
+    have b := lsame_foldl (fun st e => unregisterEc st e.1 e.2 s) (fun st e => lsame_unregisterEc st e.1 e.2 s)
+      (st.toCore.updateEcShards s es).2.2
+      ((st.toCore.updateEcShards s es).2.1.foldl (fun st e => registerEc st e.1 e.2 s) { st with toCore := (st.toCore.updateEcShards s es).1 })
+    exact ⟨b.1.trans a.1, b.2.1.trans a.2.1, b.2.2.1.trans a.2.2.1, b.2.2.2.1.trans a.2.2.2.1, b.2.2.2.2.trans a.2.2.2.2⟩
+
+theorem inv_ecinc {keyOf : Nat → Key} {st : St} (h : Inv keyOf st) (s : Nat) (ns ds : List EcInfo) :
+    Inv keyOf (syncEcInc st s ns ds) := by
+  unfold syncEcInc
+  split
+  · exact h
+  · refine inv_of_same h _ (csame_deltaUpdateEcShards st.toCore s ns ds) _ ?_
+    have a := lsame_foldl (fun st e => registerEc st e.id e.bits s) (fun st e => lsame_registerEc st e.id e.bits s)
+      ns { st with toCore := st.toCore.deltaUpdateEcShards s ns ds }
+    have b := lsame_foldl (fun st e => unregisterEc st e.id e.bits s) (fun st e => lsame_unregisterEc st e.id e.bits s)
+      ds (ns.foldl (fun st e => registerEc st e.id e.bits s) { st with toCore := st.toCore.deltaUpdateEcShards s ns ds })
+    exact ⟨b.1.trans a.1, b.2.1.trans a.2.1, b.2.2.1.trans a.2.2.1, b.2.2.2.1.trans a.2.2.2.1, b.2.2.2.2.trans a.2.2.2.2⟩
+
+/-! ### connect -/
+
+theorem Q_congr_on {st st' : St} (k : Key) (vid : Nat) (h1 : st'.locs k vid = st.locs k vid) (h3 : st'.asMin = st.asMin)
+    (h2 : ∀ dn, dn ∈ locList st k vid → ∀ t, st'.vols dn t vid = st.vols dn t vid) : Q st' k vid ↔ Q st k vid := by
+  have hl : locList st' k vid = locList st k vid := by unfold locList; rw [h1]
+  have hv : ∀ dn, dn ∈ locList st k vid → volOf st' dn vid = volOf st dn vid := by
+    intro dn hdn
+    unfold volOf Core.volOf
+    have a := h2 dn hdn 0
+    have b := h2 dn hdn 1
+    have a' : st'.toCore.vols dn 0 vid = st.toCore.vols dn 0 vid := a
+    have b' : st'.toCore.vols dn 1 vid = st.toCore.vols dn 1 vid := b
+    rw [a', b']
+  unfold Q enoughCopies isAllWritable
+  rw [hl, h3]
+  constructor
+  · intro ⟨a, b⟩
+    refine ⟨a, ?_⟩
+    rw [List.all_eq_true] at b ⊢
+    intro dn hdn; rw [← hv dn hdn]; exact b dn hdn
+  · intro ⟨a, b⟩
+    refine ⟨a, ?_⟩
+    rw [List.all_eq_true] at b ⊢
+    intro dn hdn; rw [hv dn hdn]; exact b dn hdn
+
+theorem connect_fields (c : Core) (s dc rack mh ms : Nat) (hc : c.conn s = false) :
+    (c.connect s dc rack mh ms).conn = upd1 c.conn s true ∧
+    (c.connect s dc rack mh ms).vols = (fun x => if x = s then fun _ _ => none else c.vols x) ∧
+    (c.connect s dc rack mh ms).nVid = c.nVid := by
+  unfold Core.connect
+  simp only [hc, Bool.false_eq_true, if_false]
+  split <;> exact ⟨rfl, rfl, rfl⟩
+
+/-- a (re)connecting server starts from an empty DataNode -/
+theorem inv_conn {keyOf : Nat → Key} {st : St} (h : Inv keyOf st) (s dc rack mh ms : Nat) :
+    Inv keyOf (conn st s dc rack mh ms) := by
+  by_cases hc : st.conn s = true
+  · have : conn st s dc rack mh ms = st := by
+      unfold SwV.Model.C11.conn Core.connect
+      have hc' : st.toCore.conn s = true := hc
+      simp [hc']
+    rw [this]; exact h
+  · have hc : st.conn s = false := by simpa using hc
+    obtain ⟨f1, f2, f3⟩ := connect_fields st.toCore s dc rack mh ms hc
+    have g1 : (conn st s dc rack mh ms).conn = upd1 st.conn s true := f1
+    have g2 : (conn st s dc rack mh ms).vols = (fun x => if x = s then fun _ _ => none else st.vols x) := f2
+    have hnot : ∀ vid, s ∉ locList st (keyOf vid) vid := by
+      intro vid hm
+      have := ((h.locs_iff vid s).mp hm).1
+      rw [hc] at this; cases this
+    have hll : ∀ k vid, locList (conn st s dc rack mh ms) k vid = locList st k vid := fun _ _ => rfl
+    refine ⟨?_, h.wrKey, ?_, ?_, h.other, h.nodup, h.keys⟩
+    · intro k
+      refine ⟨(h.winv k).1, fun vid hv => ?_⟩
+      have hk := h.wrKey k vid hv
+      subst hk
+      refine (Q_congr_on (st := st) (st' := conn st s dc rack mh ms) (keyOf vid) vid rfl rfl ?_).mpr ((h.winv _).2 vid hv)
+      intro dn hdn t
+      have : dn ≠ s := fun e => hnot vid (e ▸ hdn)
+      simp [g2, this]
+    · intro s' t x v hv
+      have hv' : (conn st s dc rack mh ms).vols s' t x = some v := hv
+      rw [g2] at hv'
+      by_cases e : s' = s
+      · simp [e] at hv'
+      · simp only [e, if_false] at hv'
+        have := h.regKey s' t x v hv'
+        exact ⟨this.1, this.2.1, this.2.2.1, by show x < (st.toCore.connect s dc rack mh ms).nVid + 1; rw [f3]; exact this.2.2.2⟩
+    · intro vid s'
+      rw [hll, g1, g2]
+      by_cases e : s' = s
+      · subst e
+        simp only [if_true, Option.isSome_none, Bool.false_eq_true, and_false, iff_false]
+        exact hnot vid
+      · simp only [upd1, e, if_false]
+        exact h.locs_iff vid s'
+
+/-! ### disconnect (UnRegisterDataNode) -/
+
+theorem touchKey_withCore (st : St) (c : Core) (k : Key) :
+    touchKey { st with toCore := c } k = { touchKey st k with toCore := c } := by
+  unfold touchKey
+  by_cases hk : k ∈ st.keys
+  · simp [hk]
+  · simp [hk]
+
+/-- SetVolumeUnavailable never reads the DataNode side -/
+theorem setUnavailable_withCore (st : St) (c : Core) (v : VInfo) (s : Nat) :
+    setUnavailable { st with toCore := c } v s = { setUnavailable st v s with toCore := c } := by
+  simp only [setUnavailable, touchKey_withCore]
+  cases h : (touchKey st v.key).locs v.key v.id with
+  | none => simp
+  | some l =>
+    dsimp only
+    by_cases hc : l.contains s = true
+    · by_cases hl : (l.erase s).length < copyCount v.key.rp
+      · simp only [hc, hl, if_true, removeWritable]
+      · simp only [hc, hl, if_true, if_false]
+    · simp only [hc, Bool.false_eq_true, if_false]
+
+theorem foldl_unavail_withCore (s : Nat) (l : List VInfo) (st : St) (c : Core) :
+    l.foldl (fun st v => setUnavailable st v s) { st with toCore := c } =
+      { l.foldl (fun st v => setUnavailable st v s) st with toCore := c } := by
+  induction l generalizing st with
+  | nil => rfl
+  | cons a l ih => simp only [List.foldl_cons]; rw [setUnavailable_withCore, ih]
+
+theorem foldl_unavail_core (s : Nat) (l : List VInfo) (st : St) :
+    (l.foldl (fun st v => setUnavailable st v s) st).toCore = st.toCore := by
+  induction l generalizing st with
+  | nil => rfl
+  | cons a l ih => simp only [List.foldl_cons]; rw [ih, setUnavailable_toCore]
+
+/-- SetVolumeUnavailable for a volume of a server that is no longer connected -/
+theorem invP_unavailable {keyOf : Nat → Key} {s : Nat} {PL PQ : Nat → Prop} {st : St}
+    (h : InvP keyOf s PL PQ st) (v : VInfo) (hkey : v.key = keyOf v.id) (hdisc : st.conn s = false) :
+    InvP keyOf s (fun x => PL x ∧ x ≠ v.id) PQ (setUnavailable st v s) := by
+  obtain ⟨t1, t2, t3, t4, _, _⟩ := touchKey_wr st v.key
+  have mk := mem_touchKey st v.key
+  have caseA : s ∉ locList st v.key v.id → InvP keyOf s (fun x => PL x ∧ x ≠ v.id) PQ (touchKey st v.key) := by
+    intro hs
+    have hll : locList (touchKey st v.key) v.key v.id = locList st v.key v.id := by unfold locList; rw [t2]
+    apply invP_transfer h v.id v.key hkey t3 t4
+    · intro k vid _; rw [t2]
+    · exact mk.2
+    · intro _; exact mk.1
+    · rw [t1]; exact h.wnodup
+    · intro k x hx _; rw [t1] at hx; exact hx
+    · intro k hx; rw [t1] at hx; rw [h.wrKey k _ hx, hkey]
+    · intro hx hq; rw [t1] at hx
+      exact (Q_congr_vols v.key v.id (by rw [t2]) (congrArg Core.vols t3) t4).mpr (h.wq _ _ hx hq)
+    · intro s' _; rw [hll]
+    · rw [hll, hkey]; exact h.nodup v.id
+    · intro _; rw [hll, hdisc]; simp [hs]
+    · intro x hne hp hq; exact hp ⟨hq, hne⟩
+    · intro x _ hp; exact hp
+  simp only [setUnavailable]
+  split
+  · next hnone =>
+    apply caseA
+    unfold locList; rw [← t2, hnone]; simp
+  · next l hl =>
+    have hl' : locList st v.key v.id = l := by unfold locList; rw [← t2, hl]; rfl
+    split
+    · next hcont =>
+      have hmem : s ∈ l := by simpa using hcont
+      have hnd : l.Nodup := by rw [← hl', hkey]; exact h.nodup v.id
+      have hnot : s ∉ l.erase s := fun hh => ((List.Nodup.mem_erase_iff hnd).mp hh).1 rfl
+      have key : ∀ st' : St, st'.toCore = st.toCore → st'.asMin = st.asMin → st'.keys = (touchKey st v.key).keys →
+          st'.locs = updK2 st.locs v.key v.id (some (l.erase s)) →
+          (∀ k', (st'.wr k').Nodup) → (∀ k' x, x ∈ st'.wr k' → x ∈ st.wr k') →
+          (v.id ∈ st'.wr v.key → copyCount v.key.rp ≤ (l.erase s).length) →
+          InvP keyOf s (fun x => PL x ∧ x ≠ v.id) PQ st' := by
+        intro st' c1 c2 c3 c4 c6 c7 c8
+        have c5 : locList st' v.key v.id = l.erase s := by unfold locList; rw [c4]; simp [updK2]
+        apply invP_transfer h v.id v.key hkey c1 c2
+        · intro k vid hne; rw [c4]; simp [updK2, hne]
+        · intro k hk; rw [c3]; exact mk.2 k hk
+        · intro _; rw [c3]; exact mk.1
+        · exact c6
+        · intro k x hx _; exact c7 k x hx
+        · intro k hx; rw [h.wrKey k _ (c7 k _ hx), hkey]
+        · intro hx hpq
+          have hq := h.wq v.key v.id (c7 _ _ hx) hpq
+          have hlen := c8 hx
+          have hlen' : (l.erase s).length = l.length - 1 := List.length_erase_of_mem hmem
+          obtain ⟨q1, q2⟩ := hq
+          constructor
+          · unfold enoughCopies at q1 ⊢
+            rw [c5, c2]
+            rw [hl'] at q1
+            simp only [Bool.or_eq_true, beq_iff_eq, Bool.and_eq_true, decide_eq_true_eq] at q1 ⊢
+            rcases q1 with q1 | q1
+            · omega
+            · by_cases e : (l.erase s).length = copyCount v.key.rp
+              · exact Or.inl e
+              · exact Or.inr ⟨q1.1, by omega⟩
+          · unfold isAllWritable at q2 ⊢
+            rw [c5]
+            rw [hl'] at q2
+            rw [List.all_eq_true] at q2 ⊢
+            intro dn hdn
+            have := q2 dn (List.mem_of_mem_erase hdn)
+            unfold volOf at this ⊢
+            rw [c1]; exact this
+        · intro s' hs'; rw [c5, hl']; exact List.mem_erase_of_ne hs'
+        · rw [c5]; exact hnd.erase s
+        · intro _; rw [c5, hdisc]; simp [hnot]
+        · intro x hne hp hq; exact hp ⟨hq, hne⟩
+        · intro x _ hp; exact hp
+      split
+      · next hlt =>
+        apply key
+        · exact t3
+        · exact t4
+        · rfl
+        · show updK2 (touchKey st v.key).locs v.key v.id (some (l.erase s)) = _; rw [t2]
+        · intro k'
+          show (updK (touchKey st v.key).wr v.key (((touchKey st v.key).wr v.key).erase v.id) k').Nodup
+          rw [t1]; unfold updK; split
+          · next e => subst e; exact (h.wnodup _).erase _
+          · exact h.wnodup k'
+        · intro k' x hx
+          have hx' : x ∈ updK (touchKey st v.key).wr v.key (((touchKey st v.key).wr v.key).erase v.id) k' := hx
+          rw [t1] at hx'; unfold updK at hx'; split at hx'
+          · next e => subst e; exact List.mem_of_mem_erase hx'
+          · exact hx'
+        · intro hx
+          have hx' : v.id ∈ updK (touchKey st v.key).wr v.key (((touchKey st v.key).wr v.key).erase v.id) v.key := hx
+          rw [t1] at hx'; simp only [updK, if_true] at hx'
+          exact absurd rfl ((List.Nodup.mem_erase_iff (h.wnodup _)).mp hx').1
+      · next hge =>
+        apply key
+        · exact t3
+        · exact t4
+        · rfl
+        · show updK2 (touchKey st v.key).locs v.key v.id (some (l.erase s)) = _; rw [t2]
+        · intro k'; show ((touchKey st v.key).wr k').Nodup; rw [t1]; exact h.wnodup k'
+        · intro k' x hx
+          have hx' : x ∈ (touchKey st v.key).wr k' := hx
+          rw [t1] at hx'; exact hx'
+        · intro _; omega
+    · next hcont =>
+      apply caseA
+      rw [hl']; simpa using hcont
+
+theorem invP_unavails {keyOf : Nat → Key} {s : Nat} (l : List VInfo) : ∀ (st : St) (PL : Nat → Prop),
+    InvP keyOf s PL (fun _ => False) st → st.conn s = false → (∀ v ∈ l, v.key = keyOf v.id) →
+    (∀ x, PL x → ∃ v ∈ l, v.id = x) → Inv keyOf (l.foldl (fun st v => setUnavailable st v s) st) := by
+  induction l with
+  | nil =>
+    intro st PL h _ _ hl
+    exact inv_of_invP h (fun x hx => by obtain ⟨_, hm, _⟩ := hl x hx; cases hm) (fun _ f => f)
+  | cons a l ih =>
+    intro st PL h hd hk hl
+    simp only [List.foldl_cons]
+    refine ih _ _ (invP_unavailable h a (hk a (by simp)) hd) ?_ (fun v hv => hk v (by simp [hv])) ?_
+    · show (setUnavailable st a s).toCore.conn s = false
+      rw [setUnavailable_toCore]; exact hd
+    · intro x ⟨hx, hne⟩
+      obtain ⟨v, hv, rfl⟩ := hl x hx
+      rcases List.mem_cons.mp hv with rfl | hv
+      · exact absurd rfl hne
+      · exact ⟨v, hv, rfl⟩
+
+theorem mem_volumesOf {keyOf : Nat → Key} (hk : ∀ vid, (keyOf vid).disk < 2) {c : Core} (hr : RegKey keyOf c) (s : Nat) :
+    (∀ v ∈ c.volumesOf s, v.key = keyOf v.id) ∧
+    (∀ x v, c.vols s (keyOf x).disk x = some v → v ∈ c.volumesOf s) := by
+  constructor
+  · intro v hv
+    unfold Core.volumesOf at hv
+    simp only [List.mem_flatMap, List.mem_filterMap, List.mem_range] at hv
+    obtain ⟨t, _, x, _, hx⟩ := hv
+    obtain ⟨_, e2, e3, _⟩ := hr s t x v hx
+    rw [e3, e2]
+  · intro x v hv
+    unfold Core.volumesOf
+    simp only [List.mem_flatMap, List.mem_filterMap, List.mem_range]
+    exact ⟨(keyOf x).disk, hk x, x, (hr s _ x v hv).2.2.2, hv⟩
+
+/-- Topology.UnRegisterDataNode -/
+theorem inv_disc {keyOf : Nat → Key} (hk : ∀ vid, (keyOf vid).disk < 2) {st : St} (h : Inv keyOf st) (s : Nat) :
+    Inv keyOf (disc st s) := by
+  by_cases hc : st.conn s = true
+  · have e : disc st s = (volumesOf st s).foldl (fun st v => setUnavailable st v s) { st with toCore := st.toCore.disconnect s } := by
+      rw [foldl_unavail_withCore]
+      simp only [disc, hc, Bool.not_true, Bool.false_eq_true, if_false]
+      rw [foldl_unavail_core]
+    rw [e]
+    obtain ⟨m1, m2⟩ := mem_volumesOf hk h.regKey s
+    have hvols : (st.toCore.disconnect s).vols = st.vols := rfl
+    have hconn : (st.toCore.disconnect s).conn = upd1 st.conn s false := rfl
+    refine invP_unavails (volumesOf st s) _ (fun x => s ∈ locList st (keyOf x) x) ?_ ?_ m1 ?_
+    · refine ⟨fun k => (h.winv k).1, ?_, h.wrKey, ?_, ?_, h.other, h.nodup, h.keys⟩
+      · intro k vid hv _
+        exact (Q_congr_vols (st' := { st with toCore := st.toCore.disconnect s }) (st := st) k vid rfl hvols rfl).mpr ((h.winv k).2 vid hv)
+      · intro s' t x v hv; exact h.regKey s' t x v hv
+      · intro vid s' hcond
+        show s' ∈ locList st (keyOf vid) vid ↔ ((st.toCore.disconnect s).conn s' = true ∧ ((st.toCore.disconnect s).vols s' (keyOf vid).disk vid).isSome = true)
+        rw [hconn, hvols]
+        by_cases es : s' = s
+        · subst es
+          rcases hcond with hh | hh
+          · exact absurd rfl hh
+          · simp [upd1, hh]
+        · simp only [upd1, es, if_false]; exact h.locs_iff vid s'
+    · show (st.toCore.disconnect s).conn s = false
+      rw [hconn]; simp [upd1]
+    · intro x hx
+      have := ((h.locs_iff x s).mp hx).2
+      cases hv : st.vols s (keyOf x).disk x with
+      | none => rw [hv] at this; cases this
+      | some v => exact ⟨v, m2 x v hv, (h.regKey s _ x v hv).2.1⟩
+  · have : st.conn s = false := by simpa using hc
+    simp [disc, this]; exact h
+
+/-! ### the refresh round (SetVolumeCapacityFull) -/
+
+theorem inv_capacityFull {keyOf : Nat → Key} {st : St} (h : Inv keyOf st) (k : Key) (vid : Nat) :
+    Inv keyOf (removeWritable (touchKey st k) k vid) := by
+  obtain ⟨t1, t2, t3, t4, _, _⟩ := touchKey_wr st k
+  have mk := mem_touchKey st k
+  have hsub : ∀ k' x, x ∈ (removeWritable (touchKey st k) k vid).wr k' → x ∈ st.wr k' := by
+    intro k' x hx
+    have hx' : x ∈ updK (touchKey st k).wr k (((touchKey st k).wr k).erase vid) k' := hx
+    rw [t1] at hx'; unfold updK at hx'; split at hx'
+    · next e => subst e; exact List.mem_of_mem_erase hx'
+    · exact hx'
+  have hll : ∀ k' x, locList (removeWritable (touchKey st k) k vid) k' x = locList st k' x := by
+    intro k' x; show ((touchKey st k).locs k' x).getD [] = _; rw [t2]; rfl
+  refine ⟨winv_removeWritable (winv_touchKey h.winv k) k vid, fun k' x hx => h.wrKey k' x (hsub k' x hx), ?_, ?_, ?_, ?_, ?_⟩
+  · intro s t x v hv
+    have : st.toCore.vols s t x = some v := by rw [← t3]; exact hv
+    have r := h.regKey s t x v this
+    exact ⟨r.1, r.2.1, r.2.2.1, by show x < (touchKey st k).toCore.nVid + 1; rw [t3]; exact r.2.2.2⟩
+  · intro x s
+    rw [hll]
+    show _ ↔ ((touchKey st k).toCore.conn s = true ∧ ((touchKey st k).toCore.vols s (keyOf x).disk x).isSome = true)
+    rw [t3]; exact h.locs_iff x s
+  · intro k' x hne; show (touchKey st k).locs k' x = none; rw [t2]; exact h.other k' x hne
+  · intro x; rw [hll]; exact h.nodup x
+  · intro k' x hne
+    have : st.locs k' x ≠ none := by rw [← t2]; exact hne
+    exact mk.2 k' (h.keys k' x this)
+
+theorem foldl_inv_st {α : Type} (P : St → Prop) (f : St → α → St) (hf : ∀ st a, P st → P (f st a)) (l : List α) (st : St)
+    (h : P st) : P (l.foldl f st) := by
+  induction l generalizing st with
+  | nil => exact h
+  | cons a l ih => simp only [List.foldl_cons]; exact ih _ (hf st a h)
+
+theorem inv_refresh {keyOf : Nat → Key} {st : St} (h : Inv keyOf st) (n : Nat) : Inv keyOf (refresh st n) := by
+  unfold refresh
+  refine foldl_inv_st (Inv keyOf) _ ?_ _ _ h
+  intro st' s h'
+  split
+  · refine foldl_inv_st (Inv keyOf) _ ?_ _ _ h'
+    intro st'' v h''
+    split
+    · exact inv_capacityFull h'' v.key v.id
+    · exact h''
+  · exact h'
+
+/-! ## the main theorems -/
+
+/-- well-formed operation: the volume messages carry ids in the modelled range and the attributes
+    (collection, replication, ttl, disk type = the layout key) that belong to the volume id; one incremental
+    message does not announce and delete the same volume.  (Nothing is asked of stale, repeated, reordered
+    or contradicting messages, of EC messages, connects, disconnects or refresh rounds.) -/
+def OpWf (keyOf : Nat → Key) (c : Core) : Op → Prop
+  | .full _ vs => ∀ v ∈ vs, VOk keyOf c v
+  | .inc _ ns ds => (∀ v ∈ ns ++ ds, VOk keyOf c v) ∧ ∀ d ∈ ds, ∀ n ∈ ns, d.id ≠ n.id
+  | _ => True
+
+def OpsWf (keyOf : Nat → Key) (st : St) : List Op → Prop
+  | [] => True
+  | op :: ops => OpWf keyOf st.toCore op ∧ OpsWf keyOf (step st op) ops
+
+/-- every top-level operation of the model keeps the invariant -/
+theorem inv_step {keyOf : Nat → Key} (hk : ∀ vid, (keyOf vid).disk < 2) {st : St} (h : Inv keyOf st) (op : Op)
+    (hop : OpWf keyOf st.toCore op) : Inv keyOf (step st op) := by
+  cases op with
+  | conn s dc rack mh ms => exact inv_conn h s dc rack mh ms
+  | max s mh ms => exact inv_max h s mh ms
+  | full s vs => exact inv_full hk h s vs hop
+  | inc s ns ds => exact inv_inc hk h s ns ds hop.1 hop.2
+  | ecfull s es => exact inv_ecfull h s es
+  | ecinc s ns ds => exact inv_ecinc h s ns ds
+  | disc s => exact inv_disc hk h s
+  | refresh => exact inv_refresh h maxSrv
+
+theorem inv_init (keyOf : Nat → Key) (limit : Nat) (asMin : Bool) (nVid : Nat) : Inv keyOf (init limit asMin nVid) := by
+  refine ⟨winv_init limit asMin nVid, ?_, ?_, ?_, ?_, ?_, ?_⟩
+  · intro k vid hv; simp [init] at hv
+  · intro s t x v hv; simp [init] at hv
+  · intro vid s; simp [init, locList]
+  · intro k vid _; rfl
+  · intro vid; simp [init, locList]
+  · intro k vid hne; exact absurd rfl hne
+
+theorem inv_run {keyOf : Nat → Key} (hk : ∀ vid, (keyOf vid).disk < 2) {st : St} (h : Inv keyOf st) (ops : List Op)
+    (hops : OpsWf keyOf st ops) : Inv keyOf (run st ops) := by
+  induction ops generalizing st with
+  | nil => exact h
+  | cons op ops ih =>
+    simp only [run, List.foldl_cons]
+    exact ih (inv_step hk h op hops.1) hops.2
+
+theorem opsWf_take {keyOf : Nat → Key} {st : St} (ops : List Op) (n : Nat) (h : OpsWf keyOf st ops) :
+    OpsWf keyOf st (ops.take n) := by
+  induction ops generalizing st n with
+  | nil => simp [OpsWf]
+  | cons op ops ih =>
+    cases n with
+    | zero => simp [OpsWf]
+    | succ n => exact ⟨h.1, ih n h.2⟩
+
+/-- C11, main theorem, part 1 (`writable_ok` lifted to the real step function): after EVERY operation of
+    ANY well-formed sequence of the model's top-level operations — connects / reconnects, max-count
+    changes, full and incremental volume heartbeats (read-only flips, size reports, stale, repeated and
+    contradicting messages included), full and incremental EC heartbeats, disconnects, refresh rounds —
+    every volume id in a writables slice has the number of locations its replication asks for (or more
+    under replication-as-minimum) and every located replica is registered writable.  No hypothesis beyond
+    well-formedness is needed: none of the open findings concerns these two conjuncts.
+    (The third conjunct, "below the size limit", is false of the code — `full_volume_offered_again` —
+    and holds in the form `refresh_removes_full` below.) -/
+theorem writable_inv_run (keyOf : Nat → Key) (hk : ∀ vid, (keyOf vid).disk < 2) (limit : Nat) (asMin : Bool) (nVid : Nat)
+    (ops : List Op) (hops : OpsWf keyOf (init limit asMin nVid) ops) (n : Nat) :
+    WritableOk (run (init limit asMin nVid) (ops.take n)) :=
+  winv_writableOk (inv_run hk (inv_init keyOf limit asMin nVid) _ (opsWf_take ops n hops)).winv
+
+/-- C11, main theorem, part 2 (`lookup_exact`, layout level): after every operation the location list
+    of a volume id in its layout is exactly the set of connected servers that have the volume registered -/
+theorem lookup_exact_run (keyOf : Nat → Key) (hk : ∀ vid, (keyOf vid).disk < 2) (limit : Nat) (asMin : Bool) (nVid : Nat)
+    (ops : List Op) (hops : OpsWf keyOf (init limit asMin nVid) ops) (n : Nat) :
+    LookupExact (run (init limit asMin nVid) (ops.take n)) keyOf := by
+  have h := inv_run hk (inv_init keyOf limit asMin nVid) _ (opsWf_take ops n hops)
+  intro vid s
+  rw [h.locs_iff vid s]
+  have : volOf (run (init limit asMin nVid) (ops.take n)) s vid =
+      (run (init limit asMin nVid) (ops.take n)).vols s (keyOf vid).disk vid := volOf_eq hk h.regKey s vid
+  rw [this]
+  constructor
+  · intro ⟨a, b⟩; exact ⟨a, Option.isSome_iff_exists.mp b⟩
+  · intro ⟨a, b⟩; exact ⟨a, Option.isSome_iff_exists.mpr b⟩
+
+/-! ### Topology.Lookup -/
+
+theorem findSome_unique {α β : Type} (f : α → Option β) (l : List α) (k0 : α) (b : β)
+    (h1 : ∀ k ∈ l, k ≠ k0 → f k = none) (h2 : k0 ∈ l) (h3 : f k0 = some b) : l.findSome? f = some b := by
+  induction l with
+  | nil => cases h2
+  | cons a l ih =>
+    simp only [List.findSome?_cons]
+    by_cases e : a = k0
+    · subst e; rw [h3]
+    · rw [h1 a (by simp) e]
+      rcases List.mem_cons.mp h2 with h | h
+      · exact absurd h.symm e
+      · exact ih (fun k hk => h1 k (by simp [hk])) h
+
+theorem findSome_none {α β : Type} (f : α → Option β) (l : List α) (h1 : ∀ k ∈ l, f k = none) : l.findSome? f = none := by
+  induction l with
+  | nil => rfl
+  | cons a l ih =>
+    simp only [List.findSome?_cons]
+    rw [h1 a (by simp)]
+    exact ih (fun k hk => h1 k (by simp [hk]))
+
+/-- `Topology.Lookup` under the invariant: a volume id that has an entry in its layout is answered with
+    exactly the connected servers it is registered on (an EMPTY entry — left behind by
+    SetVolumeUnavailable — included: it answers "nowhere", which is exact for the normal volume and hides
+    EC shards, the open finding SetVolumeUnavailable/empty-location-list-hides-ec-shards); a volume id
+    without an entry is registered nowhere as a normal volume and is answered from the EC shard map
+    (whose exactness fails by the open finding UnRegisterDataNode/ec-shards-of-disconnected-server-stay-in-lookup
+    and is left to the correspondence check) -/
+theorem lookup_exact_of_inv {keyOf : Nat → Key} (hk : ∀ vid, (keyOf vid).disk < 2) {st : St} (h : Inv keyOf st) (vid : Nat) :
+    (st.locs (keyOf vid) vid ≠ none →
+      ∀ s, s ∈ lookup st vid ↔ (st.conn s = true ∧ ∃ v, volOf st s vid = some v)) ∧
+    (st.locs (keyOf vid) vid = none →
+      lookup st vid = (List.range 14).flatMap (fun sh => st.ecLoc vid sh) ∧
+      ∀ s, ¬ (st.conn s = true ∧ ∃ v, volOf st s vid = some v)) := by
+  have hvol : ∀ s, volOf st s vid = st.vols s (keyOf vid).disk vid := fun s => volOf_eq hk h.regKey s vid
+  constructor
+  · intro hne s
+    cases hl : st.locs (keyOf vid) vid with
+    | none => exact absurd hl hne
+    | some l =>
+      have : lookup st vid = l := by
+        unfold lookup
+        rw [findSome_unique (fun k => st.locs k vid) st.keys (keyOf vid) l
+          (fun k _ hk' => h.other k vid hk') (h.keys _ vid hne) hl]
+      rw [this, hvol]
+      have := h.locs_iff vid s
+      unfold locList at this
+      rw [hl] at this
+      rw [show s ∈ l ↔ s ∈ (some l).getD [] from Iff.rfl, this]
+      constructor
+      · intro ⟨a, b⟩; exact ⟨a, Option.isSome_iff_exists.mp b⟩
+      · intro ⟨a, b⟩; exact ⟨a, Option.isSome_iff_exists.mpr b⟩
+  · intro hnone
+    constructor
+    · unfold lookup
+      rw [findSome_none (fun k => st.locs k vid) st.keys]
+      intro k _
+      by_cases e : k = keyOf vid
+      · subst e; exact hnone
+      · exact h.other k vid e
+    · intro s ⟨a, b⟩
+      rw [hvol] at b
+      have := (h.locs_iff vid s).mpr ⟨a, Option.isSome_iff_exists.mpr b⟩
+      unfold locList at this
+      rw [hnone] at this
+      simp at this
+
+/-- C11, main theorem, part 2 for `Topology.Lookup` itself, after every operation of every well-formed sequence -/
+theorem lookup_exact_partial (keyOf : Nat → Key) (hk : ∀ vid, (keyOf vid).disk < 2) (limit : Nat) (asMin : Bool) (nVid : Nat)
+    (ops : List Op) (hops : OpsWf keyOf (init limit asMin nVid) ops) (n : Nat) (vid : Nat) :
+    let st := run (init limit asMin nVid) (ops.take n)
+    (st.locs (keyOf vid) vid ≠ none →
+      ∀ s, s ∈ lookup st vid ↔ (st.conn s = true ∧ ∃ v, volOf st s vid = some v)) ∧
+    (st.locs (keyOf vid) vid = none →
+      lookup st vid = (List.range 14).flatMap (fun sh => st.ecLoc vid sh) ∧
+      ∀ s, ¬ (st.conn s = true ∧ ∃ v, volOf st s vid = some v)) :=
+  lookup_exact_of_inv hk (inv_run hk (inv_init keyOf limit asMin nVid) _ (opsWf_take ops n hops)) vid
+
+/-! ## the size-limit conjunct -/
+
+theorem foldl_keep {α : Type} (f : St → α → St) (A G : St → Prop) (hA : ∀ st a, A st → A (f st a))
+    (hG : ∀ st a, A st → G st → G (f st a)) (L : List α) (st : St) (h1 : A st) (h2 : G st) :
+    A (L.foldl f st) ∧ G (L.foldl f st) := by
+  induction L generalizing st with
+  | nil => exact ⟨h1, h2⟩
+  | cons a L ih => simp only [List.foldl_cons]; exact ih _ (hA st a h1) (hG st a h1 h2)
+
+theorem foldl_hit {α : Type} (f : St → α → St) (A G : St → Prop) (hA : ∀ st a, A st → A (f st a))
+    (hG : ∀ st a, A st → G st → G (f st a)) (a0 : α) (hit : ∀ st, A st → G (f st a0)) (L : List α) (st : St)
+    (hm : a0 ∈ L) (h1 : A st) : A (L.foldl f st) ∧ G (L.foldl f st) := by
+  induction L generalizing st with
+  | nil => cases hm
+  | cons a L ih =>
+    simp only [List.foldl_cons]
+    by_cases e : a0 = a
+    · subst e
+      exact foldl_keep f A G hA hG L _ (hA st a0 h1) (hit st h1)
+    · rcases List.mem_cons.mp hm with h | h
+      · exact absurd h e
+      · exact ih _ h (hA st a h1)
+
+/-- C11, size-limit conjunct, in the form the code guarantees it: right after a refresh round no volume
+    that some connected server has registered at or over the size limit is offered for writes.  (Between
+    refresh rounds the conjunct is false of the code: heartbeats do not look at sizes of known volumes, and
+    ensureCorrectWritables re-offers a processed full volume — `full_volume_offered_again`, the open finding
+    ensureCorrectWritables/full-volume-offered-again.) -/
+theorem refresh_removes_full (st : St) (hn : ∀ k, (st.wr k).Nodup) (s : Nat) (hs : s < maxSrv) (hc : st.conn s = true)
+    (v : VInfo) (hv : v ∈ volumesOf st s) (hfull : v.size ≥ st.limit) : v.id ∉ (refresh st maxSrv).wr v.key := by
+  let A : St → Prop := fun st' => st'.toCore = st.toCore ∧ st'.limit = st.limit ∧ ∀ k, (st'.wr k).Nodup
+  let G : St → Prop := fun st' => v.id ∉ st'.wr v.key
+  -- one SetVolumeCapacityFull
+  have wr_eq : ∀ (st' : St) (k : Key) (x : Nat), (removeWritable (touchKey st' k) k x).wr = updK st'.wr k ((st'.wr k).erase x) := by
+    intro st' k x
+    show updK (touchKey st' k).wr k (((touchKey st' k).wr k).erase x) = _
+    rw [(touchKey_wr st' k).1]
+  have gA : ∀ (st' : St) (a : VInfo), A st' →
+      A (if a.size ≥ st'.limit then removeWritable (touchKey st' a.key) a.key a.id else st') := by
+    intro st' a ⟨a1, a2, a3⟩
+    split
+    · refine ⟨(touchKey_wr st' a.key).2.2.1.trans a1, (touchKey_wr st' a.key).2.2.2.2.2.trans a2, ?_⟩
+      intro k
+      rw [wr_eq]; unfold updK; split
+      · next e => subst e; exact (a3 _).erase _
+      · exact a3 k
+    · exact ⟨a1, a2, a3⟩
+  have gG : ∀ (st' : St) (a : VInfo), A st' → G st' →
+      G (if a.size ≥ st'.limit then removeWritable (touchKey st' a.key) a.key a.id else st') := by
+    intro st' a _ hg
+    split
+    · intro hm
+      rw [wr_eq] at hm; unfold updK at hm; split at hm
+      · next e => rw [← e] at hm; exact hg (List.mem_of_mem_erase hm)
+      · exact hg hm
+    · exact hg
+  have gHit : ∀ (st' : St), A st' →
+      G (if v.size ≥ st'.limit then removeWritable (touchKey st' v.key) v.key v.id else st') := by
+    intro st' ⟨_, a2, a3⟩
+    rw [a2, if_pos hfull]
+    intro hm
+    rw [wr_eq] at hm; simp only [updK, if_true] at hm
+    exact ((List.Nodup.mem_erase_iff (a3 _)).mp hm).1 rfl
+  -- one server of the round
+  have oA : ∀ (st' : St) (s' : Nat), A st' →
+      A (if st'.conn s' = true then
+          (volumesOf st' s').foldl (fun st v => if v.size ≥ st.limit then removeWritable (touchKey st v.key) v.key v.id else st) st'
+         else st') := by
+    intro st' s' ha
+    split
+    · exact (foldl_keep _ A (fun _ => True) gA (fun _ _ _ _ => trivial) _ _ ha trivial).1
+    · exact ha
+  have oG : ∀ (st' : St) (s' : Nat), A st' → G st' →
+      G (if st'.conn s' = true then
+          (volumesOf st' s').foldl (fun st v => if v.size ≥ st.limit then removeWritable (touchKey st v.key) v.key v.id else st) st'
+         else st') := by
+    intro st' s' ha hg
+    split
+    · exact (foldl_keep _ A G gA gG _ _ ha hg).2
+    · exact hg
+  have oHit : ∀ (st' : St), A st' →
+      G (if st'.conn s = true then
+          (volumesOf st' s).foldl (fun st v => if v.size ≥ st.limit then removeWritable (touchKey st v.key) v.key v.id else st) st'
+         else st') := by
+    intro st' ha
+    have hc' : st'.conn s = true := by
+      show st'.toCore.conn s = true; rw [ha.1]; exact hc
+    have hv' : v ∈ volumesOf st' s := by
+      show v ∈ st'.toCore.volumesOf s; rw [ha.1]; exact hv
+    rw [if_pos hc']
+    exact (foldl_hit _ A G gA gG v gHit _ _ hv' ha).2
+  unfold refresh
+  exact (foldl_hit _ A G oA oG s oHit (List.range maxSrv) st (List.mem_range.mpr hs) ⟨rfl, rfl, hn⟩).2
+
+/-- after a refresh round of ANY well-formed history: no volume registered at or over the limit on a
+    connected server is in the writables -/
+theorem refresh_removes_full_run (keyOf : Nat → Key) (hk : ∀ vid, (keyOf vid).disk < 2) (limit : Nat) (asMin : Bool) (nVid : Nat)
+    (ops : List Op) (hops : OpsWf keyOf (init limit asMin nVid) ops) (s : Nat) (hs : s < maxSrv)
+    (hc : (run (init limit asMin nVid) ops).conn s = true) (v : VInfo)
+    (hv : v ∈ volumesOf (run (init limit asMin nVid) ops) s) (hfull : v.size ≥ (run (init limit asMin nVid) ops).limit) :
+    v.id ∉ (step (run (init limit asMin nVid) ops) .refresh).wr v.key := by
+  have h := inv_run hk (inv_init keyOf limit asMin nVid) ops hops
+  exact refresh_removes_full _ (fun k => (h.winv k).1) s hs hc v hv hfull
+
+/-! ## the hypotheses are satisfiable -/
+
+/-- a key assignment: collection and disk type by parity of the volume id, replication 000 -/
+def exKey (vid : Nat) : Key := ⟨vid % 2, 0, 0, vid % 2⟩
+
+theorem exKey_disk : ∀ vid, (exKey vid).disk < 2 := by
+  intro vid; show vid % 2 < 2; omega
+
+/-- a history with every kind of operation — a repeated "new" message, a stale delete for a volume that
+    was never registered, a read-only flip, a volume that disappears from the full heartbeat, growth past the
+    limit, EC messages, a refresh round, a disconnect and a reconnect elsewhere — is well-formed -/
+def exOps : List Op :=
+  [.conn 0 0 0 5 4, .conn 1 0 1 5 0, .max 0 7 9,
+   .full 0 [⟨3, 10, false, false, exKey 3⟩, ⟨4, 20, false, false, exKey 4⟩],
+   .inc 1 [⟨3, 0, false, false, exKey 3⟩] [],
+   .inc 1 [⟨3, 0, false, false, exKey 3⟩] [],
+   .inc 1 [] [⟨5, 0, false, false, exKey 5⟩],
+   .full 0 [⟨3, 2000, true, false, exKey 3⟩],
+   .ecinc 1 [⟨6, 0, 0, 7⟩] [], .ecfull 1 [⟨6, 0, 0, 3⟩],
+   .refresh, .disc 0, .conn 0 1 1 5 0,
+   .full 0 [⟨4, 20, false, false, exKey 4⟩], .inc 1 [] [⟨3, 0, false, false, exKey 3⟩]]
+
+example : OpsWf exKey (init 1000 false 12) exOps := by
+  simp only [exOps, OpsWf, OpWf, VOk]
+  decide
+
+/-- the conclusions at the end of that history, read off the theorems -/
+example : WritableOk (run (init 1000 false 12) exOps) ∧ LookupExact (run (init 1000 false 12) exOps) exKey := by
+  have hw : OpsWf exKey (init 1000 false 12) exOps := by
+    simp only [exOps, OpsWf, OpWf, VOk]
+    decide
+  have h1 := writable_inv_run exKey exKey_disk 1000 false 12 exOps hw exOps.length
+  have h2 := lookup_exact_run exKey exKey_disk 1000 false 12 exOps hw exOps.length
+  rw [List.take_length] at h1 h2
+  exact ⟨h1, h2⟩
+
+/-- `refresh_removes_full` is not vacuous: a volume that grew past the limit while writable is still offered
+    before the refresh round and no longer after it -/
+example :
+    let st := run (init 1000 false 12)
+      [.conn 0 0 0 5 4, .full 0 [⟨4, 10, false, false, exKey 4⟩], .full 0 [⟨4, 2000, false, false, exKey 4⟩]]
+    st.conn 0 = true ∧ (⟨4, 2000, false, false, exKey 4⟩ : VInfo) ∈ volumesOf st 0 ∧ 4 ∈ st.wr (exKey 4) ∧
+      4 ∉ (step st .refresh).wr (exKey 4) := by decide
 
 end SwV.Props.C11
